@@ -11,10 +11,8 @@ from __future__ import annotations
 
 import ast
 
-from ..dataflow import RD
-from ..inline import Inliner
-from ..loader import AnalysisError, FuncInfo, Tree, ancestors, unparse, walk_function
-from ..prov import describe, named_stores
+from ..loader import AnalysisError, FuncInfo, Tree, unparse, walk_function
+from ..prov import describe
 from ..report import Check
 
 PID = "C04"
@@ -23,32 +21,116 @@ NAMING = "ampform.helicity.naming::get_helicity_angle_symbols"
 OPPOSITE = "ampform.helicity.decay::is_opposite_helicity_state"
 
 
-def prov_key(store) -> str:
+WORKER_ROLE = ANGLES + ".__recursive_helicity_angles"  # historical name of the recursion of compute_helicity_angles: part of recorded keys
+
+
+def recursion_worker(tree: Tree) -> FuncInfo:
+    """The function in which compute_helicity_angles descends the decay tree - found by what it DOES, not by its
+    name: the one function nested in compute_helicity_angles, or package function reachable from it, that calls
+    itself.  (Nested closure, module-level helper that takes the topology as a parameter, any name: the same role.)"""
+    cached = tree.__dict__.get("_c04_worker")
+    if cached is not None:
+        return cached
+    top = tree.func(ANGLES)
+    graph = tree.call_graph()
+    cands: list[FuncInfo] = []
+    for q in sorted(tree.reachable(top.qual, graph) | {f.qual for f in tree.funcs.values() if _nested_in(f, top)}):
+        f = tree.funcs.get(q)
+        if f is None or not q.startswith("ampform.kinematics"):
+            continue
+        if q in graph.get(q, set()) or any(c == q for _, c in tree.calls_in(f, nested=False)):
+            cands.append(f)
+    if len(cands) != 1:
+        raise AnalysisError(f"{ANGLES}: expected one self-recursive function that descends the decay tree, found {[c.qual for c in cands]} "
+                            "(a recursion rewritten as a loop over an explicit stack cannot be decided by these rules)")
+    tree.__dict__["_c04_worker"] = cands[0]
+    return cands[0]
+
+
+def _nested_in(f: FuncInfo, top: FuncInfo) -> bool:
+    o = f.outer
+    while o is not None:
+        if o is top:
+            return True
+        o = o.outer
+    return False
+
+
+def stable_qual(tree: Tree, fn: FuncInfo) -> str:
+    """Qualified name for violation keys: the recursion of compute_helicity_angles keeps its historical name whatever
+    the nested function is called today (its name is a local name of compute_helicity_angles)."""
+    if fn.qual.startswith("ampform.kinematics.angles::"):
+        try:
+            if recursion_worker(tree) is fn:
+                return WORKER_ROLE
+        except AnalysisError:
+            pass
+    return fn.qual
+
+
+def _key_statement(store) -> str:
+    """The store as ``_0[_1] = F(_2, ...)`` - independent of how the entry is written (subscript assignment, dict
+    display, update, setdefault), of the names of locals and of how much of the value is spelled inline."""
+    from ..canon import canon
+    from ..prov import canon_scope
+
+    names = canon_scope(store.stmt) | {"__acc__", "__key__"}
+    mapping: dict[str, str] = {}
+    acc = store.target if isinstance(store.target, ast.Name) else ast.Name(id="__acc__", ctx=ast.Load())
+    key = store.key_expr if isinstance(store.key_expr, ast.Name) else ast.Name(id="__key__", ctx=ast.Load())
+    names |= {acc.id, key.id}  # (a parameter of a helper / an accumulator parameter is a local name like any other)
+    value = store.value_expr
+    if isinstance(value, ast.Name):
+        names.add(value.id)
+    if isinstance(value, ast.Call) and not any(isinstance(a, ast.Starred) for a in value.args):
+        fresh = iter(f"__v{i}__" for i in range(100))
+        def simple(a):
+            if isinstance(a, ast.Name):
+                names.add(a.id)
+                return a
+            n = next(fresh)
+            names.add(n)
+            return ast.Name(id=n, ctx=ast.Load())
+        value = ast.Call(func=value.func, args=[simple(a) for a in value.args], keywords=[ast.keyword(arg=k.arg, value=simple(k.value)) for k in value.keywords])
+    stmt = ast.Assign(targets=[ast.Subscript(value=acc, slice=key, ctx=ast.Store())], value=value, lineno=0)
+    if isinstance(store.stmt, ast.DictComp):
+        return canon(store.stmt)
+    return canon(stmt, names, mapping)
+
+
+def prov_key(store, tree: Tree | None = None) -> str:
     """Key of an R-PROV violation: function + store statement + missing definitions, with
     the names of local variables canonicalised (alpha-renaming does not change the key)."""
-    from ..canon import canon
-
-    missing = sorted(describe(d, canonical=True) for d in store.missing)
-    return f"{store.fn.qual}::{canon(store.stmt)}::missing[{'; '.join(missing)}]"
+    missing = sorted(describe(d, canonical=True, tree=tree, fn=store.origin or store.fn) for d in store.missing)
+    qual = store.fn.qual
+    if tree is not None:
+        qual = stable_qual(tree, store.fn)
+        if store.origin is not None and stable_qual(tree, store.origin) == WORKER_ROLE:
+            qual = WORKER_ROLE  # a store of the recursion, wherever the recursion lives and whoever calls it
+    return f"{qual}::{_key_statement(store)}::missing[{'; '.join(missing)}]"
 
 
 def check_prov(ctx: Check, tree: Tree, producers: list[str], min_stores: int) -> int:
+    from ..prov import stores_through_helpers
+
     n = 0
     cache: dict = {}
+    skip = frozenset(producers)
     for q in producers:
         fn = tree.func(q)
-        fns = [fn] + [f for f in tree.funcs.values() if f.outer is fn]
+        fns = [fn] + [f for f in tree.funcs.values() if _nested_in(f, fn)]
         for f in fns:
-            for store in named_stores(tree, f, cache):
+            for store in stores_through_helpers(tree, f, cache, skip=skip):
                 n += 1
                 key_defs = sorted(describe(d) for d in store.identity_defs)
                 val_defs = sorted(describe(d) for d in store.value_closure if d.name in {x.name for x in store.identity_defs})
                 where = tree.loc(store.stmt)
-                what = f"{f.qual}: `{unparse(store.stmt)}` - key named by {unparse(store.naming_call)[:60]}"
+                origin = store.origin or f
+                what = f"{stable_qual(tree, origin)}: `{unparse(store.stmt)[:120]}` - key named by {unparse(store.naming_call)[:60]}"
                 if store.missing:
                     ctx.violation(
                         "R-PROV",
-                        prov_key(store),
+                        prov_key(store, tree),
                         where,
                         what + ": the variable is named after one state but filled with the momentum of another",
                         {
@@ -66,254 +148,784 @@ def check_prov(ctx: Check, tree: Tree, producers: list[str], min_stores: int) ->
     return n
 
 
-def _call_named(node: ast.AST, name: str) -> bool:
-    return isinstance(node, ast.Call) and ((isinstance(node.func, ast.Name) and node.func.id == name) or (isinstance(node.func, ast.Attribute) and node.func.attr == name))
+
+# ---------------------------------------------------------------------------------------------
+# the recursion of compute_helicity_angles as VALUES (sa/symex.py)
+
+WORKER_ATOMS = frozenset({"determine_attached_final_state", "get_sibling_state_id", "is_opposite_helicity_state", "get_helicity_angle_symbols",
+                          "get_boost_chain_suffix", "three_momentum_norm", "_get_number_of_events"})
 
 
-def check_frame(ctx: Check, tree: Tree) -> None:
-    fn = tree.func(ANGLES + ".__recursive_helicity_angles")
-    from ..prov import CallInliner, _rd_for
-
-    rd = _rd_for(fn, {})
-    cinl = CallInliner(tree, fn, rd)  # a helper that the boost block was extracted into reads like the block itself
-
-    def boosted(n: ast.AST) -> ast.DictComp | None:
-        """The dict comprehension (all locals and straight-line helpers substituted) that ``n`` evaluates to, if
-        its values are ArrayMultiplication(...) products."""
-        if not (isinstance(n, ast.DictComp) or (isinstance(n, ast.Call) and tree.callee(n, fn) in tree.funcs and tree.callee(n, fn) != fn.qual)):
-            return None
-        e = cinl.expr(n)
-        if isinstance(e, ast.DictComp) and any(_call_named(c, "ArrayMultiplication") for c in ast.walk(e.value)):
-            return e
+def closure_symbols(tree: Tree, fn: FuncInfo) -> dict | None:
+    """For the symbolic execution of a nested function on its own: every variable of the enclosing functions is the
+    opaque value ("sym", name), functions nested in them are themselves."""
+    if fn.outer is None:
         return None
+    closure: dict = {}
+    o = fn.outer
+    while o is not None:
+        for n in walk_function(o.node, nested=False):
+            if isinstance(n, ast.Name) and isinstance(n.ctx, ast.Store):
+                closure.setdefault(n.id, ("sym", n.id))
+        for p_ in o.params:
+            closure.setdefault(p_, ("sym", p_))
+        for f in tree.funcs.values():
+            if f.outer is o:
+                closure[f.name] = ("localfunc", f.qual)
+        o = o.outer
+    return closure
 
-    found = [(n, e) for n in walk_function(fn.node) for e in [boosted(n)] if e is not None]
-    found = [(n, e) for n, e in found if not any(m is not n and any(x is n for x in ast.walk(m)) for m, _ in found)]  # outermost only
-    if len(found) != 1:
-        raise AnalysisError(f"{fn.qual}: expected one boosted momentum pool (dict comprehension with ArrayMultiplication), found {len(found)}")
-    comp_node, comp = found[0]  # the expression in the function / the comprehension it denotes
-    key = f"{fn.qual}::frame-chain"
-    problems = []
-    am = next(c for c in ast.walk(comp.value) if _call_named(c, "ArrayMultiplication"))
-    args = []
-    for a in am.args:  # ArrayMultiplication(*frame, p) with frame a tuple of matrices
-        if isinstance(a, ast.Starred) and isinstance(a.value, (ast.Tuple, ast.List)):
-            args.extend(a.value.elts)
-        else:
-            args.append(a)
-    # the pooled momenta may be filtered before they are mapped: `{k: f(p) for k, p in {k: p for k, p in pool.items() if c}.items()}`
-    filters = list(comp.generators[0].ifs)
-    source = comp.generators[0].iter
-    while True:
-        inner = source.func.value if isinstance(source, ast.Call) and isinstance(source.func, ast.Attribute) and source.func.attr == "items" and not source.args else source
-        if (isinstance(inner, ast.DictComp) and len(inner.generators) == 1 and isinstance(inner.generators[0].target, ast.Tuple)
-                and [unparse(x) for x in inner.generators[0].target.elts] == [unparse(inner.key), unparse(inner.value)]):
-            filters += inner.generators[0].ifs
-            source = inner.generators[0].iter
-            continue
-        break
-    names = [a.func.id if isinstance(a, ast.Call) and isinstance(a.func, ast.Name) else None for a in args]
-    if names[:3] != ["BoostZMatrix", "RotationYMatrix", "RotationZMatrix"] or len(args) != 4:
-        problems.append(f"chain is {names}, not [BoostZMatrix, RotationYMatrix, RotationZMatrix, p]")
-    else:
-        bz, ry, rz, p = args
-        loop_val = comp.generators[0].target
-        val_name = loop_val.elts[1].id if isinstance(loop_val, ast.Tuple) and len(loop_val.elts) == 2 else None
-        if not (isinstance(p, ast.Name) and p.id == val_name):
-            problems.append(f"the transformed object `{unparse(p)}` is not the pooled momentum `{val_name}`")
-        P = None
-        # rotations: -Theta(P), -Phi(P)
-        for mat, cls_name, label in ((ry, "Theta", "theta"), (rz, "Phi", "phi")):
-            a = mat.args[0] if mat.args else None
-            if not (isinstance(a, ast.UnaryOp) and isinstance(a.op, ast.USub) and _call_named(a.operand, cls_name)):
-                problems.append(f"{unparse(mat.func)} takes `{unparse(a)[:50] if a is not None else None}`, not -{cls_name}(P)")
-            else:
-                this = unparse(a.operand.args[0])
-                P = P or this
-                if this != P:
-                    problems.append(f"{label} is computed from a different momentum than the other angle")
-        b = bz.args[0] if bz.args else None
-        if not (isinstance(b, ast.BinOp) and isinstance(b.op, ast.Div) and _call_named(b.left, "three_momentum_norm") and _call_named(b.right, "Energy")):
-            if not (isinstance(b, ast.BinOp) and isinstance(b.op, ast.Div) and _call_named(b.left, "EuclideanNorm") and _call_named(b.right, "Energy")):
-                problems.append(f"beta = `{unparse(b)[:60] if b is not None else None}` is not |p|/E")
-        if isinstance(b, ast.BinOp) and P is not None:
-            bl = unparse(b.left.args[0]) if isinstance(b.left, ast.Call) and b.left.args else None
-            if bl is not None and "ThreeMomentum" in bl:
-                bl = bl[len("ThreeMomentum("):-1]
-            br = unparse(b.right.args[0]) if isinstance(b.right, ast.Call) and b.right.args else None
-            if bl != P or br != P:
-                problems.append("beta is not computed from the same summed momentum as the angles")
-        if P is not None:
-            import re as _re
 
-            loop_vars = {unparse(a.target) for a in ancestors(comp_node) if isinstance(a, ast.For)}
-            mm = _re.search(r"determine_attached_final_state\(topology, (\w+)\)", P)
-            if not (P.startswith("ArraySum(") and mm and mm.group(1) in loop_vars):
-                problems.append(f"the frame momentum `{P[:60]}` is not the sum over the final states attached to the decaying child")
-        # (a filter `if k in sub_momenta_ids` only drops entries the recursion never reads:
-        #  not a necessary condition, not checked.)  A filter must never drop own members:
-        for cond in filters:
-            if not (isinstance(cond, ast.Compare) and len(cond.ops) == 1 and isinstance(cond.ops[0], ast.In)
-                    and "determine_attached_final_state" in unparse(cond.comparators[0])):
-                problems.append(f"the boosted pool is filtered by `{unparse(cond)[:60]}`, which is not membership in the sub-system's final states")
-    ctx.verdict(not problems, "R-FRAME", key, tree.loc(comp_node),
-                "helicity frame = BoostZ(|P|/E) · RotationY(-Theta(P)) · RotationZ(-Phi(P)) applied to the sub-system's momenta, P = summed momentum of the decaying child",
-                problems or None)
-    # recursion continues with the boosted pool into the child's decay node
-    rec = [c for c in walk_function(fn.node) if isinstance(c, ast.Call) and isinstance(c.func, ast.Name) and c.func.id == fn.name]
-    ok = False
-    foreign = None
-    for c in rec:
-        if len(c.args) == 2:
-            pool_defs = rd.closure(rd.uses(c.args[0]))
-            ok = any(d.value is comp_node for d in pool_defs) and "ending_node_id" in unparse(cinl.expr(c.args[1]))
-            # ... and with nothing but that pool: every definition that reaches the argument
-            # (through plain name copies) is the comprehension of THIS activation.  A pool read
-            # back from a container that outlives the activation (a memo keyed by the
-            # sub-system's ids) is the frame of whichever chain of parents filled it first.
-            work, seen = [c.args[0]], set()
-            while work:
-                e = work.pop()
-                if e is comp_node:
-                    continue
-                if isinstance(e, ast.Name):
-                    for d in rd.uses(e):
-                        if id(d) in seen:
-                            continue
-                        seen.add(id(d))
-                        if d.value is None:
-                            foreign = foreign or f"`{e.id}` ({d.kind})"
-                        else:
-                            work.append(d.value)
+def run_recording(tree: Tree, fn: FuncInfo, atoms=frozenset()):
+    """(executor, value, final state) of ``fn`` run by a SymEx that additionally RECORDS
+    ``recorded`` - every entry written into a mapping with the complete path condition at that point, however the
+                   executor models the mapping itself: (pc, mapping value | None, key, value, ast node) for subscript
+                   stores, ``setdefault`` / ``__setitem__``, the ``k: v`` pairs of dict displays and the entries of dict
+                   comprehensions (their ``foreach`` / ``when`` wrappers are kept on the key/value pair),
+    ``exits``    - (continue | break | return, pc, node): where an iteration / the activation ends early,
+    and that treats private module-level helpers of the kinematics package as part of the function (they are inlined
+    wherever they live).  A nested function is run with the variables of its definers as opaque ("sym", name)."""
+    from ..symex import SymEx
+
+    class _SX(SymEx):
+        recorded: list = []
+        exits: list = []
+
+        def _may_inline(self, callee, caller, *a, **k):
+            if (callee.name.startswith("_") and not callee.name.endswith("__") and callee.qual.startswith("ampform.kinematics") and callee.cls is None
+                    and callee.outer is None and callee.name not in self.atoms and callee.qual not in self.atoms and len(self._stack) <= self.inline_depth
+                    and not any(fr.fn is callee for fr in self._stack) and callee is not fn):
+                return True
+            return super()._may_inline(callee, caller, *a, **k)
+
+        def _assign(self, target, v, st):
+            if isinstance(target, ast.Subscript):
+                self.recorded.append((st.pc, self.ev(target.value, st), self.ev(target.slice, st), v, target))
+            return super()._assign(target, v, st)
+
+        def _ev_Dict(self, node, st):
+            out = super()._ev_Dict(node, st)
+            if out[0] == "dict":
+                for k, v in out[1]:
+                    if not (isinstance(k, tuple) and k and k[0] == "star"):
+                        self.recorded.append((st.pc, None, k, v, node))
+            return out
+
+        def _ev_DictComp(self, node, st):
+            out = super()._ev_DictComp(node, st)
+            if out[0] == "dict":
+                for k, v in out[1]:
+                    self.recorded.append((st.pc, None, k, v, node))
+            elif out[0] == "dictcomp":
+                for item in out[1]:
+                    self.recorded.append((st.pc, None, ("entry-key", item), ("entry-value", item), node))
+            return out
+
+        def _stmt(self, node, st):
+            if isinstance(node, (ast.Continue, ast.Break, ast.Return)):
+                self.exits.append((type(node).__name__.lower(), st.pc, node))
+            return super()._stmt(node, st)
+
+        def _ev_Call(self, node, st):
+            f = node.func
+            if isinstance(f, ast.Attribute) and f.attr in {"setdefault", "__setitem__"} and len(node.args) == 2 and not node.keywords:
+                self.recorded.append((st.pc, self.ev(f.value, st), self.ev(node.args[0], st), self.ev(node.args[1], st), node))
+            is_update = isinstance(f, ast.Attribute) and f.attr == "update"
+            is_dict = isinstance(f, ast.Name) and f.id in {"dict", "OrderedDict"}
+            if (is_update or is_dict) and len(node.args) == 1 and isinstance(node.args[0], ast.Call) and isinstance(node.args[0].func, ast.Name) \
+                    and node.args[0].func.id == "zip" and len(node.args[0].args) == 2 and not node.args[0].keywords:
+                keys, vals = (self.ev(a, st) for a in node.args[0].args)
+                vs = self._plain(vals)
+                ks = self._plain(keys)
+                if vs is not None:  # zip stops at the shorter one: the values are known one by one
+                    base = self.ev(f.value, st) if is_update else None
+                    for i, v in enumerate(vs):
+                        if ks is None or i < len(ks):
+                            self.recorded.append((st.pc, base, ks[i] if ks is not None else self._item(keys, i), v, node))
+            if (is_update or is_dict) and len(node.args) == 1 and isinstance(node.args[0], (ast.GeneratorExp, ast.ListComp)) \
+                    and isinstance(node.args[0].elt, ast.Tuple) and len(node.args[0].elt.elts) == 2:
+                pairs = self.ev(node.args[0], st)  # [(k, v) for ...] handed to dict() / update(): the comprehension form of the stores
+                if pairs[0] == "list":
+                    for item in pairs[1]:
+                        self.recorded.append((st.pc, None, ("entry-key", item), ("entry-value", item), node))
+            return super()._ev_Call(node, st)
+
+    sx = _SX(tree, atoms=set(atoms))
+    sx.recorded = []
+    sx.exits = []
+    try:
+        value, state = sx.run(fn, closure=closure_symbols(tree, fn))
+    except AnalysisError:
+        raise
+    except Exception as exc:  # noqa: BLE001 - an executor failure is "cannot decide", never a verdict
+        raise AnalysisError(f"{fn.qual}: symbolic execution failed ({exc!r})") from exc
+    return sx, value, state
+
+
+def entries_of(sx) -> list[tuple]:
+    """The recorded entries with comprehension items opened: (path condition, key, value, generic elements, node).
+    The conditions of a comprehension (``if`` clauses) are appended to the path condition; ``generic elements`` are the
+    ("each", iterable, n) values the key / value range over."""
+    from ..symex import strip_when
+
+    out = []
+    for pc, _base, k, v, node in sx.recorded:
+        if isinstance(k, tuple) and k and k[0] == "entry-key":
+            item, eaches, conds = k[1], [], ()
+            while item[0] in {"foreach", "when"}:
+                if item[0] == "foreach":
+                    eaches.append(item[1])
+                    item = item[2]
                 else:
-                    foreign = foreign or f"`{unparse(e)[:60]}`"
-    ctx.verdict(ok, "R-FRAME", f"{fn.qual}::recursion", tree.loc(rec[0]) if rec else tree.loc(fn.node),
-                "the recursion descends into the child's decay node with the boosted momentum pool")
-    ctx.verdict(foreign is None, "R-FRAME", f"{fn.qual}::recursion-own-pool", tree.loc(rec[0]) if rec else tree.loc(fn.node),
-                "the pool handed to the recursion is the one boosted in this activation (from this activation's pool), on every path",
-                None if foreign is None else f"the pool may also be {foreign}: a frame reached through a different chain of parent frames differs by a Wigner rotation")
+                    conds += tuple(item[1])
+                    item = item[2]
+            if item[0] != "tuple" or len(item[1]) != 2:
+                raise AnalysisError(f"entry `{_show(item)}` of a dict comprehension is not a key/value pair")
+            out.append((tuple(pc) + conds, item[1][0], item[1][1], eaches, node))
+        else:
+            conds, plain = strip_when(v)
+            out.append((tuple(pc) + tuple(conds), k, plain, [], node))
+    return out
 
 
-def _state_arg(call: ast.Call) -> str | None:
-    """Source of the state id handed to a (topology, state_id) helper - positional or by keyword."""
-    a = call.args[1] if len(call.args) >= 2 else next((k.value for k in call.keywords if k.arg == "state_id"), None)
-    return unparse(a) if a is not None else None
+def worker_model(tree: Tree) -> dict:
+    """One activation of the recursion of compute_helicity_angles, executed symbolically (once per tree):
+    ``calls``  - the recursive calls: (path condition, {parameter: argument value}, call value, ast node)
+    ``stores`` - the entries written into mappings (``entries_of``): (path condition, key, value, generic elements, node)
+    ``pool`` / ``node`` - the parameters that carry the momentum pool and the decay node (found by their use)
+    Variables of the enclosing function are the opaque values ("sym", name): whatever is reached through them
+    outlives the activation."""
+    from ..symex import subterms
+
+    cached = tree.__dict__.get("_c04_worker_model")
+    if cached is not None:
+        return cached
+    fn = recursion_worker(tree)
+
+    sx, value, state = run_recording(tree, fn, WORKER_ATOMS)
+    closure = closure_symbols(tree, fn)
+    params = list(fn.params)
+    calls = []
+    for ev in sx.events:
+        if ev[0] not in {"localcall", "call"}:
+            continue
+        for v in subterms(ev[2]):
+            if v[0] == "call" and v[1][0] in {"localfunc", "global"} and v[1][1] == fn.qual:
+                if v[3] or len(v[2]) != len(params):
+                    raise AnalysisError(f"{fn.qual}: the arguments of the recursive call `{_show(v)}` cannot be bound to the parameters")
+                if not any(c[2] is v or c[2] == v and c[0] == ev[1] for c in calls):
+                    calls.append((ev[1], dict(zip(params, v[2])), v, sx.origin.get(v)))
+    model = {"fn": fn, "sx": sx, "value": value, "state": state, "calls": calls, "closure": set(closure or ())}
+    model["stores"] = entries_of(sx)  # (path condition, key, value, generic elements, node)
+    model["exits"] = list(sx.exits)  # (continue | break | return, path condition, node): where an iteration / the activation ends early
+    everything = [value] + [c[2] for c in calls] + [x for st in model["stores"] for x in st[1:3] if isinstance(x, tuple)]
+    node = {p_ for p_ in params for v in everything for t in subterms(v)
+            if _method_call(t, "get_edge_ids_outgoing_from_node") is not None and _method_call(t, "get_edge_ids_outgoing_from_node")[1] == [("param", p_)]}
+    pool = {p_ for p_ in params for v in everything for t in subterms(v)
+            if (t[0] == "sub" and t[1] == ("param", p_)) or (_method_call(t, "items") is not None and _method_call(t, "items")[0] == ("param", p_))
+            or (t[0] == "attr" and t[1] == ("param", p_) and t[2] == "__getitem__")}
+    pool -= node
+    if len(node) != 1 or len(pool) != 1:
+        raise AnalysisError(f"{fn.qual}: cannot tell which parameters carry the decay node ({sorted(node)}) and the momentum pool ({sorted(pool)})")
+    model["node"], model["pool"] = node.pop(), pool.pop()
+    tree.__dict__["_c04_worker_model"] = model
+    return model
 
 
-def normalised_id(tree: Tree, fn: FuncInfo, rd: RD, arg: ast.AST, call: ast.Call) -> str | None:
-    """How is the state id handed to the naming function normalised to the helicity state?"""
-    txt = unparse(Inliner(fn.node, rd).expr(arg))  # `first, _ = decay.children; first.id` is `decay.children[0].id`
-    if ".children[0]" in txt:
-        return "TwoBodyDecay.children[0] (normalised by from_transition)"
-    if isinstance(arg, ast.Name):
-        defs = list(rd.reaching(arg))
-        guarded, plain = [], []
-        for d in defs:
-            hit = None
-            for anc in ancestors(d.node):
-                if isinstance(anc, ast.If):
-                    for c in ast.walk(anc.test):
-                        if isinstance(c, ast.Call) and tree.callee(c, fn) == OPPOSITE and _state_arg(c) == arg.id:
-                            if not (isinstance(anc.test, ast.UnaryOp) and isinstance(anc.test.op, ast.Not)):
-                                hit = anc
-            (guarded if hit is not None else plain).append((d, hit))
-        if guarded and plain:
-            # the replacement must be the SIBLING of the first pick
-            for d, anc in guarded:
-                v = d.value
-                if isinstance(v, ast.Call) and tree.callee(v, fn) == "ampform.helicity.decay::get_sibling_state_id" and _state_arg(v) == arg.id:
-                    continue
-                if isinstance(v, ast.Subscript) and isinstance(v.slice, ast.Constant):
-                    firsts = [p.value for p, _ in plain if isinstance(p.value, ast.Subscript) and isinstance(p.value.slice, ast.Constant) and unparse(p.value.value) == unparse(v.value)]
-                    if firsts and all({f.slice.value, v.slice.value} == {0, 1} for f in firsts) and len(firsts) == len(plain):
-                        continue
-                return None
-            d, anc = guarded[0]
-            return f"`if {unparse(anc.test)}: {unparse(d.node)[:50]}` (replaced by its sibling)"
+def _matrix_arg(v, index: int, names: tuple[str, ...]):
+    if len(v[2]) > index:
+        return v[2][index]
+    kw = dict(v[3])
+    return next((kw[n] for n in names if n in kw), None)
+
+
+def _negated(v):
+    """x if ``v`` is -x (``-x``, ``-1 * x``, ``x * -1``), else None."""
+    from ..symex import as_number
+
+    if v[0] == "unop" and v[1] in {"-", "USub"}:
+        return v[2]
+    if v[0] in {"mul", "binop"}:
+        fs = list(v[1]) if v[0] == "mul" else ([v[2], v[3]] if v[1] == "*" else [])
+        if len(fs) == 2:
+            for a, b in (fs, fs[::-1]):
+                if as_number(a) == -1:
+                    return b
     return None
 
 
-def _decided_tests(test: ast.AST, outcome: bool):
-    """(atomic test, outcome) pairs that are known once ``test`` evaluated to ``outcome``."""
-    from ..canon import normal_test
+def pooled_sum(v, pool):
+    """S if ``v`` is ``ArraySum(<pool[i] for every i of S>)`` - comprehension, generator, ``map(pool.__getitem__, S)``,
+    in a list / tuple / starred: the summed momentum of the states S.  None if ``v`` is not such a sum."""
+    if not _is_call(v, "ArraySum") or v[3]:
+        return None
+    args = list(v[2])
+    items = []
+    for a in args:
+        if a[0] == "star" and a[1][0] in {"list", "tuple", "set"}:
+            items += list(a[1][1])
+        elif a[0] == "star" and len(args) == 1 and _method_call(_same_elements(a[1]), "values") is not None and _method_call(_same_elements(a[1]), "values")[0] == pool:
+            return ("call", ("attr", pool, "keys"), (), ())  # every momentum of the pool
+        elif a[0] == "star":
+            return None
+        else:
+            items.append(a)
+    if len(items) == 1 and items[0][0] == "foreach":
+        each, elt = items[0][1], items[0][2]
+        if elt == ("sub", pool, each) or (elt[0] == "call" and elt[1] in {("attr", pool, "__getitem__"), ("attr", pool, "get")} and list(elt[2]) == [each] and not elt[3]):
+            return each[1]
+    return None
 
-    test, outcome = normal_test(test, outcome)
-    if isinstance(test, ast.BoolOp) and ((isinstance(test.op, ast.And) and outcome) or (isinstance(test.op, ast.Or) and not outcome)):
-        for v in test.values:
-            yield from _decided_tests(v, outcome)
-    else:
-        yield test, outcome
+
+def read_frame(tree: Tree, model: dict, call: tuple) -> tuple[list[str], list[str], list[str]]:
+    """(problems of the frame chain, problems of the descent, foreign sources of the pool) for one recursive call.
+    The pool argument must be, in every alternative, a mapping built in this activation from the handed-in pool:
+    key -> ArrayMultiplication(BoostZMatrix(|P|/E(P)), RotationYMatrix(-Theta(P)), RotationZMatrix(-Phi(P)), pool[key])
+    with P the summed momentum of the final states attached to the child c whose decay node is the node argument."""
+    from ..symex import cases, strip_when, subterms
+
+    fn = model["fn"]
+    pool = ("param", model["pool"])
+    pc, bound, callv, _node = call
+    chain_problems: list[str] = []
+    descent: list[str] = []
+    foreign: list[str] = []
+    node_arg = bound[model["node"]]
+    ea = _edge_attr(node_arg)
+    if ea is None:
+        raise Unreadable(f"{fn.qual}: the recursion continues at `{_show(node_arg)}`, which is not a node of an edge of the topology")
+    topo, child, attr = ea
+    if attr != "ending_node_id":
+        descent.append(f"the recursion continues at the `{attr}` of the child, not at its ending node")
+    for alt_pc, arg in cases(bound[model["pool"]]):
+        carried = [t for t in subterms(arg) if t[0] in {"carried", "carried-out"}]
+        if arg == pool:
+            descent.append("the recursion receives the handed-in pool itself, not the momenta boosted into the child's frame")
+            continue
+        if arg[0] == "sub" or (arg[0] == "call" and arg[1][0] == "attr" and arg[1][2] in {"get", "pop", "setdefault"}):
+            base = arg[1] if arg[0] == "sub" else arg[1][1]
+            roots = [t for t in subterms(base) if t[0] in {"sym", "global"} or (t[0] == "param" and t != pool)
+                     or (t[0] in {"carried", "carried-out"} and (t[1] in model["closure"] or (t[1] in fn.params and t[1] != model["pool"])))]
+            if roots and not _is_dict_made_here(base):
+                foreign.append(f"`{_show(arg)}` (read back from a container that outlives the activation)")
+                continue
+            raise Unreadable(f"{fn.qual}: the pool handed to the recursion is `{_show(arg)}`: cannot tell where that container comes from")
+        if arg[0] in {"sym", "global"} or (arg[0] == "param" and arg != pool):
+            foreign.append(f"`{_show(arg)}` (not built in this activation)")
+            continue
+        if arg[0] not in {"dictcomp", "dict"}:
+            raise Unreadable(f"{fn.qual}: the pool handed to the recursion is `{_show(arg)}`, not a mapping built from the handed-in pool")
+        entries = arg[1] if arg[0] == "dictcomp" else ()
+        if len(entries) != 1 or entries[0][0] != "foreach":
+            raise Unreadable(f"{fn.qual}: the boosted pool `{_show(arg)}` is not one comprehension over the handed-in pool")
+        each, item = entries[0][1], entries[0][2]
+        filters, kv = strip_when(item)
+        if kv[0] != "tuple" or len(kv[1]) != 2:
+            raise Unreadable(f"{fn.qual}: entry `{_show(kv)}` of the boosted pool")
+        key, val = kv[1]
+        src = each[1]
+        attached_c = None
+        inner_filters = _pool_items(src, pool)
+        if inner_filters is not None:
+            want_key, momentum = ("item", each, 0), ("item", each, 1)
+        elif src == pool or (_method_call(src, "keys") is not None and _method_call(src, "keys")[0] == pool):
+            want_key, momentum = each, ("sub", pool, each)
+        elif _is_call(_same_elements(src), ATTACHED):
+            want_key, momentum = each, ("sub", pool, each)
+            attached_c = _same_elements(src)
+        elif _pairs_of(src, pool) is not None:  # ((i, pool[i]) for i in S)
+            want_key, momentum = ("item", each, 0), ("item", each, 1)
+            attached_c = _same_elements(_pairs_of(src, pool))
+            if not _is_call(attached_c, ATTACHED):
+                raise Unreadable(f"{fn.qual}: the boosted pool is built from the momenta of `{_show(attached_c)}`")
+        else:
+            if carried or any(t[0] in {"carried", "carried-out"} for t in subterms(src)):
+                raise Unreadable(f"{fn.qual}: the boosted pool is built from `{_show(src)}`, a value carried around the loop over the children (see R-POOL)")
+            raise Unreadable(f"{fn.qual}: the boosted pool iterates `{_show(src)}`, not the handed-in pool")
+        if key != want_key:
+            chain_problems.append(f"the boosted momentum is stored under `{_show(key)}`, not under the id of the momentum that was transformed")
+        if not _is_call(val, "ArrayMultiplication") or val[3]:
+            raise Unreadable(f"{fn.qual}: the boosted momentum is `{_show(val)}`, not an ArrayMultiplication(...)")
+        chain = []
+        for a in val[2]:
+            if a[0] == "star" and a[1][0] in {"tuple", "list"} and not any(x[0] in {"star", "foreach"} for x in a[1][1]):
+                chain += list(a[1][1])
+            else:
+                chain.append(a)
+        plain_chain = []
+        for c_ in chain:  # a matrix appended to a list under the conditions the recursive call itself stands under
+            conds, item = strip_when(c_)
+            if any(c not in pc for c in conds):
+                raise Unreadable(f"{fn.qual}: the chain element `{_show(item)}` is present only under `{_show(conds[0][0])}`")
+            plain_chain.append(item)
+        chain = plain_chain
+        if any(t[0] in {"carried", "carried-out"} for c_ in chain for t in subterms(c_)):
+            chain_problems.append("the frame depends on a value carried over from the iteration for a sibling (the frame of a child is a function of the pool and that child only)")
+            continue
+        if any(c_[0] == "star" for c_ in chain):
+            raise Unreadable(f"{fn.qual}: the chain `{_show(val)}` contains a splatted value of unknown length")
+        if not chain or chain[-1] != momentum:
+            chain_problems.append(f"the transformed object `{_show(chain[-1]) if chain else None}` is not the pooled momentum `{_show(momentum)}`")
+            mats = chain[:-1] if chain else []
+        else:
+            mats = chain[:-1]
+        names = []
+        for m in mats:
+            if not (m[0] == "call" and m[1][0] == "global" and m[1][1].split("::")[-1].endswith("Matrix")):
+                raise Unreadable(f"{fn.qual}: `{_show(m)}` in the chain is not a boost / rotation matrix")
+            names.append(m[1][1].split("::")[-1])
+        if names != ["BoostZMatrix", "RotationYMatrix", "RotationZMatrix"]:
+            chain_problems.append(f"chain is {names}, not [BoostZMatrix, RotationYMatrix, RotationZMatrix] applied to the momentum")
+            continue
+        bz, ry, rz = mats
+        P = None
+        for mat, cls_name, label in ((ry, "Theta", "theta"), (rz, "Phi", "phi")):
+            a = _matrix_arg(mat, 0, ("angle",))
+            if a is None:
+                raise Unreadable(f"{fn.qual}: no angle argument in `{_show(mat)}`")
+            inner = _negated(a)
+            ang = inner if inner is not None else a
+            if not (_is_call(ang, cls_name) and len(ang[2]) == 1):
+                other = "Phi" if cls_name == "Theta" else "Theta"
+                if _is_call(ang, other):
+                    chain_problems.append(f"{mat[1][1].split('::')[-1]} takes {other}, not {cls_name}")
+                    continue
+                raise Unreadable(f"{fn.qual}: the angle `{_show(a)}` of {mat[1][1].split('::')[-1]} is not ±{cls_name}(P)")
+            if inner is None:
+                chain_problems.append(f"{mat[1][1].split('::')[-1]} takes +{cls_name}(P), not -{cls_name}(P)")
+            this = ang[2][0]
+            P = P if P is not None else this
+            if this != P:
+                chain_problems.append(f"{label} is computed from a different momentum than the other angle")
+        b = _matrix_arg(bz, 0, ("beta",))
+        if b is None:
+            raise Unreadable(f"{fn.qual}: no beta argument in `{_show(bz)}`")
+        if not (b[0] == "binop" and b[1] == "/"):
+            if _negated(b) is not None and _negated(b)[0] == "binop":
+                chain_problems.append("beta = -(|p|/E): the boost runs against the frame direction")
+                b = _negated(b)
+            else:
+                raise Unreadable(f"{fn.qual}: beta = `{_show(b)}` is not a quotient")
+        num, den = b[2], b[3]
+
+        def norm_of(x):
+            if _is_call(x, "three_momentum_norm") and len(x[2]) == 1:
+                return x[2][0]
+            if _is_call(x, "EuclideanNorm") and len(x[2]) == 1 and _is_call(x[2][0], "ThreeMomentum") and len(x[2][0][2]) == 1:
+                return x[2][0][2][0]
+            return None
+
+        def energy_of(x):
+            return x[2][0] if _is_call(x, "Energy") and len(x[2]) == 1 else None
+
+        if norm_of(num) is not None and energy_of(den) is not None:
+            pn, pe = norm_of(num), energy_of(den)
+        elif energy_of(num) is not None and norm_of(den) is not None:
+            chain_problems.append("beta = E/|p| is not |p|/E")
+            pn, pe = norm_of(den), energy_of(num)
+        else:
+            raise Unreadable(f"{fn.qual}: beta = `{_show(b)}` is not built from three_momentum_norm(P) and Energy(P)")
+        if P is not None and (pn != P or pe != P):
+            chain_problems.append("beta is not computed from the same summed momentum as the angles")
+        if P is not None:
+            S = pooled_sum(P, pool)
+            if S is None:
+                if any(t == ("sub", pool, t[2]) for t in subterms(P) if t[0] == "sub") and not _is_call(P, "ArraySum"):
+                    chain_problems.append(f"the frame momentum `{_show(P)}` is not the sum over the final states attached to the decaying child")
+                elif _is_call(P, "ArraySum") and all(a_[0] == "sub" and a_[1] == pool for a_ in P[2]) and not P[3]:
+                    chain_problems.append(f"the frame momentum `{_show(P)}` sums individually picked momenta, not those of the child's final states")
+                else:
+                    raise Unreadable(f"{fn.qual}: the frame momentum `{_show(P)}` is not an ArraySum over pooled momenta")
+            else:
+                S = _same_elements(S)
+                if not _is_call(S, ATTACHED):
+                    chain_problems.append(f"the frame momentum sums the momenta of `{_show(S)}`, not of the final states attached to the decaying child")
+                else:
+                    t_, c_ = _pos_args(S, ("topology", "state_id"))[:2]
+                    if c_ != child or t_ != topo:
+                        chain_problems.append(f"the frame momentum is the sum for `{_show(c_)}`, but the recursion continues at the decay node of `{_show(child)}`")
+        # a filter may only restrict the pool to the child's own final states
+        for t, outcome, fkey in [(t, o, want_key) for t, o in filters] + list(inner_filters or []):
+            if t[0] == "cmp" and t[1] == "in" and t[2] == fkey and outcome and _is_call(_same_elements(t[3]), ATTACHED) \
+                    and _pos_args(_same_elements(t[3]), ("topology", "state_id"))[:2] == [topo, child]:
+                continue
+            if t[0] == "cmp" and t[1] == "in" and t[2] == fkey:
+                chain_problems.append(f"the boosted pool is filtered by `{_show(t)}` is {outcome}, which is not membership in the sub-system's final states")
+                continue
+            raise Unreadable(f"{fn.qual}: the boosted pool is filtered by `{_show(t)}`")
+        if attached_c is not None and _pos_args(attached_c, ("topology", "state_id"))[:2] != [topo, child]:
+            chain_problems.append(f"the boosted pool holds the momenta of `{_show(attached_c)}`, not of the child's final states")
+    return chain_problems, descent, foreign
+
+
+def _pairs_of(src, pool):
+    """S if ``src`` yields the pairs ``(i, pool[i])`` for every i of S (a comprehension / generator / zip-free spelling)."""
+    src = _same_elements(src)
+    if src[0] in {"list", "tuple", "set"} and len(src[1]) == 1 and src[1][0][0] == "foreach":
+        e2, item = src[1][0][1], src[1][0][2]
+        if item == ("tuple", (e2, ("sub", pool, e2))):
+            return e2[1]
+    return None
+
+
+def _pool_items(src, pool):
+    """[] / [(filter test, outcome, key term), ...] if ``src`` is ``<the handed-in pool, possibly copied or filtered by dict
+    comprehensions that keep key and value>.items()``; None otherwise."""
+    from ..symex import strip_when
+
+    m = _method_call(src, "items")
+    if m is None or m[1]:
+        return None
+    x = m[0]
+    while True:
+        if x[0] == "call" and x[1] in {("builtin", "dict")} and len(x[2]) == 1 and not x[3]:
+            x = x[2][0]
+        elif _method_call(x, "copy") is not None and not _method_call(x, "copy")[1]:
+            x = _method_call(x, "copy")[0]
+        else:
+            break
+    if x == pool:
+        return []
+    if x[0] == "dictcomp" and len(x[1]) == 1 and x[1][0][0] == "foreach":
+        e2, item = x[1][0][1], x[1][0][2]
+        filters, kv = strip_when(item)
+        if kv == ("tuple", (("item", e2, 0), ("item", e2, 1))):
+            inner = _pool_items(e2[1], pool)
+            if inner is not None:
+                return inner + [(t, o, ("item", e2, 0)) for t, o in filters]
+    return None
+
+
+def _is_dict_made_here(v) -> bool:
+    return isinstance(v, tuple) and v and v[0] in {"dict", "dictcomp"}
+
+
+def check_frame(ctx: Check, tree: Tree) -> None:
+    """R-FRAME on the symbolic model of the recursion: temporaries, extracted helpers, a tuple of matrices that is
+    splatted, keyword arguments, a pool that is filtered or not - all give the same value."""
+    model = worker_model(tree)
+    fn = model["fn"]
+    qual = stable_qual(tree, fn)
+    if not model["calls"]:
+        raise AnalysisError(f"{fn.qual}: no recursive call found by the symbolic execution")
+    chain: list[str] = []
+    descent: list[str] = []
+    foreign: list[str] = []
+    try:
+        for call in model["calls"]:
+            c, d, f = read_frame(tree, model, call)
+            chain += c
+            descent += d
+            foreign += f
+    except Unreadable as exc:
+        raise AnalysisError(f"R-FRAME cannot decide - {exc}") from exc
+    where = tree.loc(model["calls"][0][3]) if model["calls"][0][3] is not None and hasattr(model["calls"][0][3], "lineno") else tree.loc(fn.node)
+    ctx.verdict(not chain, "R-FRAME", f"{qual}::frame-chain", where,
+                "helicity frame = BoostZ(|P|/E) · RotationY(-Theta(P)) · RotationZ(-Phi(P)) applied to the sub-system's momenta, P = summed momentum of the decaying child",
+                sorted(set(chain)) or None)
+    ok = not descent and not foreign
+    ctx.verdict(not descent, "R-FRAME", f"{qual}::recursion", where,
+                "the recursion descends into the child's decay node with the boosted momentum pool", sorted(set(descent)) or None)
+    ctx.verdict(not foreign, "R-FRAME", f"{qual}::recursion-own-pool", where,
+                "the pool handed to the recursion is the one boosted in this activation (from this activation's pool), on every path",
+                None if not foreign else f"the pool may also be {foreign[0]}: a frame reached through a different chain of parent frames differs by a Wigner rotation")
+
+
+
+FROM_TRANSITION_Q = "ampform.helicity.decay::TwoBodyDecay.from_transition"
+
+
+def naming_requests(tree: Tree, fn: FuncInfo) -> dict[int, list]:
+    """id(call node) -> [(path condition, value of the state argument)] for every call of get_helicity_angle_symbols that
+    the symbolic execution of ``fn`` reaches (through temporaries, unpacking, helpers, keyword or positional)."""
+    from ..symex import SymEx
+
+    cache = tree.__dict__.setdefault("_c04_requests", {})
+    if fn.qual in cache:
+        return cache[fn.qual]
+    seen: dict[int, list] = {}
+
+    class _SX(SymEx):
+        def _ev_Call(self, node, st):
+            v = super()._ev_Call(node, st)
+            if isinstance(v, tuple) and _is_call(v, NAMING):
+                try:
+                    args = _pos_args(v, ("topology", "state_id"))
+                except Unreadable:
+                    args = []
+                seen.setdefault(id(node), []).append((st.pc, args[0] if args else None, args[1] if len(args) > 1 else None))
+            return v
+
+    sx = _SX(tree, atoms={NAMING, OPPOSITE, SIBLING, ATTACHED, FROM_TRANSITION_Q, "TwoBodyDecay.from_transition", "get_parent_id", "get_helicity_suffix",
+                          "formulate_helicity_rotation", "get_boost_chain_suffix"})
+    try:
+        sx.run(fn, closure=closure_symbols(tree, fn))
+    except AnalysisError:
+        raise
+    except Exception as exc:  # noqa: BLE001
+        raise AnalysisError(f"{fn.qual}: symbolic execution failed ({exc!r})") from exc
+    cache[fn.qual] = seen
+    return seen
+
+
+def requests_at(tree: Tree, fn: FuncInfo, call: ast.Call, _depth: int = 0) -> list:
+    """The requests recorded for one call site.  If the site lies in a private helper and the requested state is just a
+    parameter of that helper, the site is judged where the helper is called (the executor inlines the helper there, so
+    the same call node is reached with the caller's values and path conditions)."""
+    from ..symex import subterms
+
+    own = naming_requests(tree, fn).get(id(call)) or []
+    params = {("param", p_) for p_ in fn.params}
+    private = fn.outer is not None or (fn.name.startswith("_") and not (fn.name.startswith("__") and fn.name.endswith("__")))
+    if not private or _depth >= 2 or not any(st is not None and any(t in params for t in subterms(st)) for _, _, st in own):
+        return own
+    callers = [g for g in tree.funcs.values() if g is not fn and g.qual.startswith("ampform.") and any(q == fn.qual for _, q in tree.calls_in(g, nested=False))]
+    lifted: list = []
+    for g in callers:
+        got = naming_requests(tree, g).get(id(call))
+        if got:
+            lifted += got
+        else:
+            return own  # a caller in which the helper is not followed: judge the helper on its own
+    return lifted or own
+
+
+def _child_of_decay(x):
+    """k if ``x`` is ``<TwoBodyDecay>.children[k].id`` (indexing or unpacking of the children pair)."""
+    if x[0] == "attr" and x[2] == "id" and x[1][0] in {"sub", "item"} and x[1][1][0] == "attr" and x[1][1][2] == "children":
+        k = x[1][2]
+        k = k[1] if isinstance(k, tuple) and k[0] == "const" else k
+        if isinstance(k, int) and not isinstance(k, bool):
+            return x[1][1][1], k
+    return None
+
+
+def normalised_request(tree: Tree, fn: FuncInfo, requests: list) -> tuple[str | None, list[str]]:
+    """(how the requested state is normalised to the helicity state, problems).  In every case the state X that names the
+    angles is children[0] of a TwoBodyDecay (normalised by from_transition), or is_opposite_helicity_state(X) was decided
+    False on that path, or X is the sibling / the other child of a state Y for which it was decided True."""
+    from ..symex import cases, not_followed
+
+    hows: list[str] = []
+    problems: list[str] = []
+    for pc0, topo, state in requests:
+        if state is None:
+            raise AnalysisError(f"{fn.qual}: cannot read the state argument of a call of get_helicity_angle_symbols")
+        for pc1, x in cases(state):
+            x = _reduce_items(x)
+            pc = tuple(pc0) + tuple(pc1)
+            facts = {}
+            for t, o in pc:
+                y = _opposite_fact(t)
+                if y is not None:
+                    facts[_reduce_items(y)] = o
+            ch = _child_of_decay(x)
+            if ch is not None and not facts:
+                if ch[1] in (0, -2):
+                    hows.append("TwoBodyDecay.children[0] (normalised by from_transition)")
+                else:
+                    problems.append(f"the angles are requested for children[{ch[1]}] of the decay, the opposite-helicity state")
+                continue
+            if facts.get(x) is False:
+                hows.append(f"`{_show(x)}` when it is not the opposite-helicity state")
+                continue
+            if facts.get(x) is True:
+                problems.append(f"the angles are requested for `{_show(x)}` although it is the opposite-helicity state on this path")
+                continue
+            replaced = None
+            for y, o in facts.items():
+                if not o:
+                    continue
+                if _is_call(x, SIBLING) and _pos_args(x, ("topology", "state_id"))[1:2] == [y]:
+                    replaced = y
+                elif x[0] in {"sub", "item"} and y[0] in {"sub", "item"} and x[1] == y[1] and {_index(x), _index(y)} == {0, 1}:
+                    replaced = y  # the other one of two children
+                elif _child_of_decay(x) is not None and _child_of_decay(y) is not None and _child_of_decay(x)[0] == _child_of_decay(y)[0] \
+                        and {_child_of_decay(x)[1], _child_of_decay(y)[1]} == {0, 1}:
+                    replaced = y
+            if replaced is not None:
+                hows.append(f"`{_show(replaced)}` replaced by its sibling when it is the opposite-helicity state")
+                continue
+            why = not_followed(x, known=("get_sibling_state_id", "is_opposite_helicity_state", "determine_attached_final_state", "TwoBodyDecay.from_transition", "get_parent_id"))
+            if why is not None:
+                raise AnalysisError(f"{fn.qual}: the state `{_show(x)}` that names the angles depends on {why}")
+            if any(o for o in facts.values()):
+                problems.append(f"`{_show(x)}` is requested where another state is the opposite-helicity state, but it is not that state's sibling")
+            else:
+                problems.append(f"`{_show(x)}` is not normalised with is_opposite_helicity_state on this path")
+    return (hows[0] if hows else None), problems
+
+
+def _index(v):
+    k = v[2]
+    return k[1] if isinstance(k, tuple) and k[0] == "const" else k
+
+
+def _reduce_items(v):
+    """``item((a, b), 0)`` / ``(a, b)[0]`` -> ``a`` (after conditional values were distributed by ``cases``)."""
+    if not isinstance(v, tuple) or not v:
+        return v
+    v = tuple(_reduce_items(x) if isinstance(x, tuple) else x for x in v)
+    if isinstance(v[0], str) and v[0] in {"item", "sub"} and len(v) == 3 and isinstance(v[1], tuple) and v[1] and v[1][0] in {"tuple", "list"}:
+        k = v[2] if isinstance(v[2], int) else (v[2][1] if isinstance(v[2], tuple) and v[2][0] == "const" and isinstance(v[2][1], int) else None)
+        items = v[1][1]
+        if k is not None and -len(items) <= k < len(items) and not any(isinstance(x, tuple) and x and x[0] in {"foreach", "star", "when"} for x in items):
+            return items[k]
+    return v
+
+
+def _opposite_fact(t, topo=None):
+    """X if the atomic test ``t`` is ``is_opposite_helicity_state(topology, X)``."""
+    if _is_call(t, OPPOSITE):
+        args = _pos_args(t, ("topology", "state_id"))
+        if len(args) >= 2 and (topo is None or args[0] == topo):
+            return args[1]
+    return None
+
+
+def _sort_key_kind(sx, key) -> str:
+    """What ``sorted(.., key=key)`` / ``min`` / ``max`` orders by: "opposite" (False before True: the helicity state first),
+    "not-opposite", or "other:<text>" for a key that is followed completely but is a different criterion."""
+    from ..symex import State, not_followed, subterms
+
+    x = ("sym", "<element>")
+    try:
+        r = sx.apply(key, (x,), (), State([{}]))
+    except AnalysisError:
+        raise
+    except Exception as exc:  # noqa: BLE001
+        raise Unreadable(f"the sort key `{_show(key)}` cannot be applied symbolically ({exc!r})") from exc
+    if r[0] == "tuple" and r[1]:
+        r = r[1][0]  # lexicographic: the first component decides between two different states
+    neg = False
+    while r[0] == "not":
+        r, neg = r[1], not neg
+    if _opposite_fact(r) == x:
+        return "not-opposite" if neg else "opposite"
+    why = not_followed(r, known=("is_opposite_helicity_state",))
+    if why is not None or any(_is_call(t, OPPOSITE) for t in subterms(r)):
+        raise Unreadable(f"the sort key gives `{_show(r)}`: {why or 'a use of is_opposite_helicity_state these rules cannot interpret'}")
+    return "other:" + _show(r)
+
+
+def _ordered_pick(sx, v):
+    """(collection, "first" | "second" | "min" | "max", key kind | None) if ``v`` picks an element of a collection by
+    position / by an ordering: item(S, k), S[k], min(C, key=K), max(C, key=K) with S possibly sorted(C, key=K, reverse=R)."""
+    from ..symex import is_const
+
+    if v[0] in {"item", "sub"} and (v[2] in (0, 1) or (is_const(v[2], int) and v[2][1] in (0, 1, -1, -2))):
+        k = v[2] if isinstance(v[2], int) else v[2][1]
+        pos = "first" if k in (0, -2) else "second"
+        seq = v[1]
+        while seq[0] == "call" and seq[1][0] == "builtin" and seq[1][1] in {"list", "tuple", "iter"} and len(seq[2]) == 1 and not seq[3]:
+            seq = seq[2][0]
+        if seq[0] == "call" and seq[1] == ("builtin", "sorted") and len(seq[2]) == 1:
+            kw = dict(seq[3])
+            if set(kw) - {"key", "reverse"}:
+                raise Unreadable(f"sorted with {sorted(kw)}")
+            rev = kw.get("reverse", ("const", False))
+            if not is_const(rev, bool):
+                raise Unreadable(f"sorted(reverse={_show(rev)})")
+            kind = _sort_key_kind(sx, kw["key"]) if "key" in kw and kw["key"] != ("const", None) else "other:the ids themselves"
+            if rev[1]:
+                pos = "second" if pos == "first" else "first"
+            return _same_elements(seq[2][0]), pos, kind
+        return _same_elements(seq), pos, None
+    if v[0] == "call" and v[1][0] == "builtin" and v[1][1] in {"min", "max"} and len(v[2]) == 1:
+        kw = dict(v[3])
+        if set(kw) - {"key"}:
+            raise Unreadable(f"{v[1][1]} with {sorted(kw)}")
+        kind = _sort_key_kind(sx, kw["key"]) if "key" in kw else "other:the ids themselves"
+        return _same_elements(v[2][0]), "first" if v[1][1] == "min" else "second", kind
+    return None
 
 
 def children_order(tree: Tree, ft: FuncInfo) -> tuple[list[str], list[str]]:
-    """On every returning path of ``TwoBodyDecay.from_transition``: the state handed to the constructor as
-    children[0] is one for which `is_opposite_helicity_state` was decided False on that path, or children[1]
-    is one for which it was decided True (exactly one of two siblings is the opposite-helicity state).  The
-    values are followed path by path (swap statement, conditional expression, helper, generator over the
-    ordered ids - all the same)."""
-    from ..paths import PathWalker
-    from ..prov import PathValues, as_display, ifexp_alternatives
+    """TwoBodyDecay.from_transition, evaluated symbolically: in every case the state handed to the constructor as
+    children[0] is one for which `is_opposite_helicity_state` is False, or children[1] is one for which it is True
+    (exactly one of two siblings is the opposite-helicity state, R-HELPERS).  The decision may be a swap under the
+    test, a conditional expression, a helper, or an ordering of the two ids by the test (``sorted(ids, key=partial(
+    is_opposite_helicity_state, topology))``, ``min`` / ``max`` with that key): False sorts before True."""
+    from ..symex import cases, show_pc
 
     state_ctor = "ampform.helicity.decay::StateWithID.from_transition"
-    keep = {OPPOSITE, state_ctor, ft.qual, "ampform.helicity.decay::get_sibling_state_id", "ampform.helicity.decay::determine_attached_final_state"}
-    walker = PathWalker(tree, expand=lambda q: q.startswith("ampform.") and q not in keep, max_depth=2)
+    sx, value = helper_value(tree, ft.qual, frozenset({OPPOSITE, state_ctor, "StateWithID.from_transition", SIBLING, ATTACHED}))
     problems: list[str] = []
     shown: list[str] = []
-    n_ret = 0
-    for path in walker.paths(ft):
-        if path.exit != "return":
+    alts = cases(value)
+    if not alts:
+        raise AnalysisError(f"{ft.qual}: no returned value")
+    for pc, val in alts:
+        val = _reduce_items(val)
+        if val[0] != "call":
+            raise AnalysisError(f"{ft.qual}: returns `{_show(val)}`, not a constructed TwoBodyDecay")
+        kw = dict(val[3])
+        children = kw.get("children", val[2][1] if len(val[2]) > 1 else None)
+        if children is not None:
+            inner = children
+            while inner[0] == "call" and inner[1][0] == "builtin" and inner[1][1] in {"tuple", "list"} and len(inner[2]) == 1 and not inner[3]:
+                inner = inner[2][0]
+            if inner[0] in {"tuple", "list"} and len(inner[1]) == 1 and inner[1][0][0] == "foreach" and inner[1][0][2][0] != "when":
+                # (f(i) for i in S): the children are the images of the elements of S, in the order of S (two of them)
+                each, elt = inner[1][0][1], inner[1][0][2]
+                from ..symex import subst
+
+                inner = ("tuple", tuple(subst(elt, {each: ("item", each[1], k)}) for k in (0, 1)))
+            children = inner
+        if children is None or children[0] not in {"tuple", "list"} or len(children[1]) != 2:
+            raise AnalysisError(f"{ft.qual}: cannot read the two children handed to the constructor from `{_show(val)}`")
+        ids = []
+        for e in children[1]:
+            if not _is_call(e, state_ctor):
+                raise AnalysisError(f"{ft.qual}: child `{_show(e)}` is not StateWithID.from_transition(transition, <id>)")
+            args = _pos_args(e, ("transition", "state_id"))
+            if len(args) < 2:
+                raise AnalysisError(f"{ft.qual}: child `{_show(e)}` without a state id")
+            ids.append(_reduce_items(args[1]))
+        first, second = ids
+        facts = {}
+        for t, o in pc:
+            x = _opposite_fact(t)
+            if x is not None:
+                facts[x] = o
+        shown.append((show_pc(pc) if pc else "always") + f" -> children = ({_show(first)}, {_show(second)})")
+        if first == second:
+            problems.append(f"both children are `{_show(first)}`")
             continue
-        n_ret += 1
-        pv = PathValues()
-        for ev in path.events:
-            pv.feed(ev)
-        ret = path.exit_node
-        whole = pv.value(ret.value) if ret is not None and ret.value is not None else None
-        if whole is None:
-            raise AnalysisError(f"{ft.qual}: bare return")
-        # a conditional expression inside the value is one more fork of the path
-        for val, extra in ifexp_alternatives(whole):
-            children = None
-            if isinstance(val, ast.Call):
-                children = next((k.value for k in val.keywords if k.arg == "children"), val.args[1] if len(val.args) > 1 else None)
-            elts = as_display(children) if children is not None else None
-            if elts is None or len(elts) != 2:
-                raise AnalysisError(f"{ft.qual}: cannot read the two children handed to the constructor from `{unparse(val)[:80]}`")
-            ids = []
-            for e in elts:
-                sid = None
-                if isinstance(e, ast.Call) and tree.resolve(ft.module, e.func, ft) == state_ctor:
-                    sid = next((k.value for k in e.keywords if k.arg == "state_id"), e.args[1] if len(e.args) > 1 else None)
-                if sid is None:
-                    raise AnalysisError(f"{ft.qual}: child `{unparse(e)[:60]}` is not StateWithID.from_transition(transition, <id>)")
-                ids.append(unparse(sid))
-            facts: dict[str, bool] = {}
-            for test, outcome in [*pv.tests, *extra]:
-                for t, o in _decided_tests(test, outcome):
-                    if isinstance(t, ast.Call) and (tree.resolve(ft.module, t.func, ft) == OPPOSITE or unparse(t.func).split(".")[-1] == OPPOSITE.split("::")[-1]):
-                        a = next((k.value for k in t.keywords if k.arg == "state_id"), t.args[1] if len(t.args) > 1 else None)
-                        if a is not None:
-                            facts[unparse(a)] = o
-            first, second = ids
-            shown.append("; ".join(f"opposite({a}) is {o}" for a, o in facts.items()) + f" -> children = ({first}, {second})")
-            if first == second:
-                problems.append(f"both children are `{first}`")
-            elif facts.get(first) is True:
-                problems.append(f"children[0] = `{first}` although it is the opposite-helicity state on this path")
-            elif facts.get(second) is False:
-                problems.append(f"children[1] = `{second}` although it is the helicity state on this path")
-            elif not (facts.get(first) is False or facts.get(second) is True):
-                problems.append(f"children = (`{first}`, `{second}`): not ordered by is_opposite_helicity_state on this path")
-    if n_ret < 1:
-        raise AnalysisError(f"{ft.qual}: no returning path")
+        if facts.get(first) is True:
+            problems.append(f"children[0] = `{_show(first)}` although it is the opposite-helicity state in this case")
+            continue
+        if facts.get(second) is False:
+            problems.append(f"children[1] = `{_show(second)}` although it is the helicity state in this case")
+            continue
+        if facts.get(first) is False or facts.get(second) is True:
+            continue
+        # no test on this path: the two ids may be ORDERED by the test
+        try:
+            p1, p2 = _ordered_pick(sx, first), _ordered_pick(sx, second)
+        except Unreadable as exc:
+            raise AnalysisError(f"{ft.qual}: cannot decide how the children are ordered - {exc}") from exc
+        if p1 is None or p2 is None or p1[0] != p2[0]:
+            raise AnalysisError(f"{ft.qual}: children = (`{_show(first)}`, `{_show(second)}`): cannot tell how these two states are chosen")
+        kinds = {p1[2], p2[2]}
+        if p1[1] == p2[1]:
+            problems.append(f"both children are the {p1[1]} element of the same ordering")
+        elif kinds == {None}:
+            problems.append(f"children = (`{_show(first)}`, `{_show(second)}`): taken in the iteration order of `{_show(p1[0])}`, not ordered by is_opposite_helicity_state")
+        elif len(kinds) != 1:
+            raise AnalysisError(f"{ft.qual}: the two children are picked with different orderings ({kinds})")
+        else:
+            kind = kinds.pop()
+            first_is_smallest = p1[1] in {"first", "min"}
+            if kind.startswith("other:"):
+                problems.append(f"the children are ordered by `{kind[6:]}`, not by is_opposite_helicity_state")
+            elif (kind == "opposite") != first_is_smallest:
+                problems.append("the children are ordered by is_opposite_helicity_state the wrong way round: children[0] is the opposite-helicity state")
     return problems, shown
 
 
 def check_normalised(ctx: Check, tree: Tree) -> None:
     n = 0
-    cache: dict = {}
-    from ..prov import _rd_for
-
     for q, fn in sorted(tree.funcs.items()):
         if not q.startswith("ampform"):
             continue
@@ -321,12 +933,15 @@ def check_normalised(ctx: Check, tree: Tree) -> None:
             if callee != NAMING:
                 continue
             n += 1
-            arg = call.args[1] if len(call.args) > 1 else next((k.value for k in call.keywords if k.arg == "state_id"), None)
-            rd = _rd_for(fn, cache)
-            how = normalised_id(tree, fn, rd, arg, call) if arg is not None else None
-            ctx.verdict(how is not None, "R-NORMALISED", f"{q}::get_helicity_angle_symbols({unparse(arg) if arg is not None else ''})", tree.loc(call),
-                        f"{q}: angle symbols are requested for the helicity state: {how or unparse(arg)}",
-                        None if how else "the id is not normalised with is_opposite_helicity_state: producer and consumer may name the same angle after different children")
+            arg = call.args[1] if len(call.args) > 1 and not any(isinstance(a, ast.Starred) for a in call.args[:2]) else next((k.value for k in call.keywords if k.arg == "state_id"), None)
+            requests = requests_at(tree, fn, call)
+            if not requests:
+                raise AnalysisError(f"{q}: the symbolic execution does not reach the call `{unparse(call)[:70]}` (line {call.lineno}): cannot decide for which state the angles are requested")
+            how, problems = normalised_request(tree, fn, requests)
+            ctx.verdict(not problems, "R-NORMALISED", f"{stable_qual(tree, fn)}::get_helicity_angle_symbols({unparse(arg) if arg is not None else ''})", tree.loc(call),
+                        f"{q}: angle symbols are requested for the helicity state: {how or (unparse(arg) if arg is not None else '?')}",
+                        None if not problems else {"problems": sorted(set(problems)),
+                                                   "consequence": "the id is not normalised with is_opposite_helicity_state: producer and consumer may name the same angle after different children"})
     if n < 4:
         raise AnalysisError(f"only {n} call sites of get_helicity_angle_symbols (4 confirmed)")
     # TwoBodyDecay.from_transition orders the children so that children[0] is the helicity state
@@ -337,10 +952,69 @@ def check_normalised(ctx: Check, tree: Tree) -> None:
                 detail if not problems else {"problems": problems, "paths": detail})
     # sign of the helicity index in the aligned amplitude symbol
     gs = tree.func("ampform.helicity.align.axisangle::get_opposite_helicity_sign")
-    rets = {unparse(r.value) for r in walk_function(gs.node) if isinstance(r, ast.Return)}
-    cond = [n for n in walk_function(gs.node) if isinstance(n, ast.If)]
-    ok = rets == {"-1", "1"} and len(cond) == 1 and any(tree.callee(c, gs) == OPPOSITE for c in ast.walk(cond[0].test) if isinstance(c, ast.Call)) and unparse(cond[0].body[0].value) == "-1"
-    ctx.verdict(ok, "R-NORMALISED", f"{gs.qual}::sign", tree.loc(gs.node), "get_opposite_helicity_sign: -1 exactly for the opposite-helicity state, +1 otherwise")
+    problems, rows = read_opposite_sign(tree, gs)
+    ctx.verdict(not problems, "R-NORMALISED", f"{gs.qual}::sign", tree.loc(gs.node), "get_opposite_helicity_sign: -1 exactly for the opposite-helicity state, +1 otherwise",
+                rows if not problems else {"problems": problems, "table": rows})
+
+
+def _bool_lookup_as_choice(v):
+    """``{True: a, False: b}[test]`` and ``(b, a)[test]`` are conditional values: rewritten to the ("phi", ...) form."""
+    from ..symex import normal
+
+    if not isinstance(v, tuple) or not v:
+        return v
+    v = tuple(_bool_lookup_as_choice(x) if isinstance(x, tuple) else x for x in v)
+    if isinstance(v[0], str) and v[0] == "sub" and len(v) == 3 and isinstance(v[1], tuple) and v[1] and isinstance(v[2], tuple) and v[2] and v[2][0] in {"call", "cmp", "not", "and", "or"}:
+        table = None
+        if v[1][0] == "dict" and {k for k, _ in v[1][1]} == {("const", True), ("const", False)}:
+            table = {k[1]: x for k, x in v[1][1]}
+        elif v[1][0] in {"tuple", "list"} and len(v[1][1]) == 2 and v[2][0] in {"cmp", "not", "and", "or"}:
+            table = {False: v[1][1][0], True: v[1][1][1]}
+        if table is not None:
+            t, pos = normal(v[2])
+            return ("phi", ((((t, pos),), table[True]), (((t, not pos),), table[False])))
+    return v
+
+
+def read_opposite_sign(tree: Tree, gs: FuncInfo) -> tuple[list[str], list[str]]:
+    """The sign as a function of its atomic tests (sa/symex.decision_table: guard clauses, De Morgan and swapped
+    returns give the same table): -1 only where is_opposite_helicity_state(topology, state) holds, +1 wherever it
+    does not, and -1 for at least one case in which it holds."""
+    from ..symex import as_number, decision_table
+
+    if len(gs.params) < 2:
+        raise AnalysisError(f"{gs.qual}: no (topology, state) parameters")
+    topo, state = ("param", gs.params[0]), ("param", gs.params[1])
+    _, value = helper_value(tree, gs.qual, frozenset({OPPOSITE}))
+    value = _bool_lookup_as_choice(value)
+    atoms, table = decision_table(value)
+    opp = [i for i, a in enumerate(atoms) if _is_call(a, OPPOSITE)]
+    if len(opp) != 1:
+        raise AnalysisError(f"{gs.qual}: the sign depends on {len(opp)} calls of is_opposite_helicity_state (conditions: {[_show(a) for a in atoms]}); one expected")
+    try:
+        asked = _pos_args(atoms[opp[0]], ("topology", "state_id"))[:2]
+    except Unreadable as exc:
+        raise AnalysisError(f"{gs.qual}: {exc}") from exc
+    problems: list[str] = []
+    if asked != [topo, state]:
+        problems.append(f"asks is_opposite_helicity_state({', '.join(_show(a) for a in asked)}), not of its own (topology, state)")
+    rows = []
+    minus_for_opposite = False
+    for bits, v in sorted(table.items(), reverse=True):
+        if v is None:
+            continue  # this combination raises / cannot occur
+        n = as_number(v) if not (isinstance(v, tuple) and v and v[0] == "ambiguous") else None
+        if n not in (1, -1):
+            raise AnalysisError(f"{gs.qual}: returns `{_show(v)}`, which is not the literal 1 or -1")
+        row = ", ".join(f"{_show(a)}={b}" for a, b in zip(atoms, bits)) + f" -> {n:+d}"
+        rows.append(row)
+        if bits[opp[0]]:
+            minus_for_opposite = minus_for_opposite or n == -1
+        elif n != 1:
+            problems.append(f"{row}: -1 for a state that is not the opposite-helicity state")
+    if not minus_for_opposite:
+        problems.append("never -1 for the opposite-helicity state")
+    return problems, rows
 
 
 def convention_evaluator(tree: Tree):
@@ -391,8 +1065,10 @@ def check_convention(ctx: Check, tree: Tree) -> None:
     phi, theta = te.app("phi-of", [topology, helicity_state]), te.app("theta-of", [topology, helicity_state])
     gk = tree.func("ampform.helicity::_generate_kinematic_variables")
     res = te.eval_function(gk, [transition, node_id])
-    ok = all(isinstance(r, Tup) and len(r.items) == 3 and _same(te, r.items[1], phi) and _same(te, r.items[2], theta)
-             for r, _ in (res.branches if isinstance(res, PW) else [(res, None)]))
+    branches = res.branches if isinstance(res, PW) else [(res, None)]
+    if not all(isinstance(r, Tup) and len(r.items) == 3 for r, _ in branches):
+        raise AnalysisError(f"{gk.qual}: does not return a triple (mass, phi, theta): {repr(res)[:120]}")
+    ok = all(_same(te, r.items[1], phi) and _same(te, r.items[2], theta) for r, _ in branches)
     ctx.verdict(ok, "R-CONVENTION", f"{gk.qual}::angles-of-children0", tree.loc(gk.node),
                 "_generate_kinematic_variables: (phi, theta) are the angle symbols of decay.children[0] (the helicity state)", None if ok else repr(res)[:200])
     fn = tree.func("ampform.helicity::formulate_isobar_wigner_d")
@@ -404,102 +1080,378 @@ def check_convention(ctx: Check, tree: Tree) -> None:
         if len(apps) != 1:
             raise AnalysisError("formulate_isobar_wigner_d: expected one Wigner.D call")
         got = apps[0]
+        unread = [k for k in want if got.get(k) is None]
+        if unread:
+            raise AnalysisError(f"formulate_isobar_wigner_d: cannot read the argument(s) {unread} of the Wigner D (got {sorted(got)})")
         problems += [f"{k} = {got.get(k)!r} is not {'-phi' if k == 'alpha' else 'theta' if k == 'beta' else '0'}" + (" of decay.children[0]" if k != "gamma" else "")
                      for k, w in want.items() if not _same(te, got.get(k), w)]
     ctx.verdict(not problems, "R-CONVENTION", f"{fn.qual}::euler-angles", tree.loc(fn.node),
                 "Wigner-D of a decay node takes (alpha, beta, gamma) = (-phi, theta, 0): the conjugate of the frame rotation R_y(-theta) R_z(-phi)", problems or None)
 
 
-def _unwrap_collection(e: ast.AST) -> ast.AST:
-    """Look through conversions that keep the elements: list(x), set(x), tuple(x), sorted(x), frozenset(x)."""
-    while isinstance(e, ast.Call) and isinstance(e.func, ast.Name) and e.func.id in {"list", "set", "tuple", "sorted", "frozenset"} and len(e.args) == 1 and not e.keywords:
-        e = e.args[0]
-    return e
+# ---------------------------------------------------------------------------------------------
+# R-HELPERS: the topology helpers are read as VALUES (sa/symex.py), not as text: temporaries, early returns, swapped
+# branches, De Morgan, unpacking instead of indexing, keyword arguments, extracted helpers all give the same value.
+# Every reading is three-valued: the value is understood and right (ok) / understood and wrong (violation) /
+# not expressed in the vocabulary the rule knows (AnalysisError).
+
+DECAY = "ampform.helicity.decay"
+ATTACHED = f"{DECAY}::determine_attached_final_state"
+SIBLING = f"{DECAY}::get_sibling_state_id"
+PARENT = f"{DECAY}::get_parent_id"
+_KEEPS_ELEMENTS = {"list", "tuple", "sorted", "set", "frozenset", "iter", "reversed"}
 
 
-def sibling_definition(fn: FuncInfo) -> tuple[bool, str | None]:
-    """Is the (single) value returned by ``fn(topology, state)`` the one element of
-    ``topology.get_edge_ids_outgoing_from_node(topology.edges[state].originating_node_id)`` minus ``state``?
-    Accepted constructions of "minus": `.remove(state)` / `.discard(state)` on the collection, a comprehension over
-    it filtered by `x != state`, `- {state}` / `.difference({state})`; of "the one element": `next(iter(C))`,
-    `C[0]`, `C.pop()`, `(x,) = C`."""
-    if len(fn.params) < 2:
-        return False, "no (topology, state) parameters"
-    topo, state = fn.params[:2]
-    rd = RD(fn.node)
-    inl = Inliner(fn.node, rd)
-    rets = [r for r in walk_function(fn.node) if isinstance(r, ast.Return) and r.value is not None]
-    if len(rets) != 1:
-        return False, f"{len(rets)} return statements"
-    origin = f"{topo}.edges[{state}].originating_node_id"
+class Unreadable(AnalysisError):
+    """The value has a shape outside the vocabulary of the rule: cannot decide."""
 
-    def is_state(e: ast.AST) -> bool:
-        return isinstance(e, ast.Name) and e.id == state and all(d.kind == "param" for d in rd.reaching(e))
 
-    def is_raw(e: ast.AST) -> bool:
-        e = _unwrap_collection(inl.expr(e))
-        return (isinstance(e, ast.Call) and isinstance(e.func, ast.Attribute) and e.func.attr == "get_edge_ids_outgoing_from_node"
-                and unparse(e.func.value) == topo and len(e.args) == 1 and unparse(e.args[0]).replace(" ", "") == origin)
+def helper_value(tree: Tree, qual: str, atoms: frozenset = frozenset()):
+    """(SymEx, value) of one helper function, computed once per tree."""
+    from ..symex import SymEx
 
-    def is_minus(e: ast.AST, depth: int = 0) -> bool:
-        """``e`` evaluates to the outgoing edges of the originating node without ``state``."""
-        e = _unwrap_collection(e)
-        if isinstance(e, (ast.ListComp, ast.SetComp, ast.GeneratorExp)):
-            if len(e.generators) != 1:
-                return False
-            g = e.generators[0]
-            if not (isinstance(g.target, ast.Name) and isinstance(e.elt, ast.Name) and e.elt.id == g.target.id and len(g.ifs) == 1 and is_raw(g.iter)):
-                return False
-            c = g.ifs[0]
-            if not (isinstance(c, ast.Compare) and len(c.ops) == 1 and isinstance(c.ops[0], ast.NotEq)):
-                return False
-            a, b = c.left, c.comparators[0]
-            return any(isinstance(x, ast.Name) and x.id == g.target.id and is_state(y) for x, y in ((a, b), (b, a)))
-        if isinstance(e, ast.BinOp) and isinstance(e.op, ast.Sub):
-            return is_raw(e.left) and isinstance(e.right, ast.Set) and len(e.right.elts) == 1 and is_state(e.right.elts[0])
-        if isinstance(e, ast.Call) and isinstance(e.func, ast.Attribute) and e.func.attr == "difference" and len(e.args) == 1:
-            a = e.args[0]
-            return is_raw(e.func.value) and isinstance(a, (ast.Set, ast.List, ast.Tuple)) and len(a.elts) == 1 and is_state(a.elts[0])
-        if isinstance(e, ast.Name) and depth < 6:
-            defs = rd.reaching(e)
-            if not defs:
-                return False
-            for d in defs:
-                if d.kind == "assign" and d.index is None and isinstance(d.value, ast.AST):
-                    if not is_minus(d.value, depth + 1):
-                        return False
-                elif d.kind == "store" and isinstance(d.value, ast.Call) and isinstance(d.value.func, ast.Attribute) \
-                        and d.value.func.attr in {"remove", "discard"} and len(d.value.args) == 1 and is_state(d.value.args[0]):
-                    # x.remove(state): x was the complete collection before
-                    older = [o for o in d.deps if o.name == d.name]
-                    if not older or not all(o.kind == "assign" and o.index is None and isinstance(o.value, ast.AST) and is_raw(o.value) for o in older):
-                        return False
-                else:
-                    return False
-            return True
+    cache = tree.__dict__.setdefault("_c04_symex", {})
+    key = (qual, atoms)
+    if key not in cache:
+        fn = tree.func(qual)
+        sx = SymEx(tree, atoms=set(atoms))
+        try:
+            value, _ = sx.run(fn)
+        except AnalysisError:
+            raise
+        except Exception as exc:  # noqa: BLE001 - an executor failure is "cannot decide", never a verdict
+            raise AnalysisError(f"{qual}: symbolic execution failed ({exc!r})") from exc
+        cache[key] = (sx, value)
+    return cache[key]
+
+
+def _is_call(v, name: str) -> bool:
+    """``v`` is a call of the package function / class / builtin called ``name`` (qualified name or last component)."""
+    from ..symex import func_name
+
+    if not (isinstance(v, tuple) and v and v[0] == "call"):
         return False
+    f = func_name(v)
+    return f == name or f.split("::")[-1].split(".")[-1] == name.split("::")[-1].split(".")[-1]
 
-    v = rets[0].value
-    coll = None
-    if isinstance(v, ast.Call) and isinstance(v.func, ast.Name) and v.func.id == "next" and len(v.args) == 1 \
-            and isinstance(v.args[0], ast.Call) and isinstance(v.args[0].func, ast.Name) and v.args[0].func.id == "iter" and len(v.args[0].args) == 1:
-        coll = v.args[0].args[0]
-    elif isinstance(v, ast.Subscript) and isinstance(v.slice, ast.Constant) and v.slice.value == 0:
-        coll = v.value
-    elif isinstance(v, ast.Call) and isinstance(v.func, ast.Attribute) and v.func.attr == "pop" and not v.args:
-        coll = v.func.value
-    elif isinstance(v, ast.Name):
-        defs = rd.reaching(v)
-        if len(defs) == 1:
-            d = next(iter(defs))
-            tgt = d.node.targets[0] if isinstance(d.node, ast.Assign) and len(d.node.targets) == 1 else None
-            if d.kind == "assign" and d.index == 0 and isinstance(tgt, (ast.Tuple, ast.List)) and len(tgt.elts) == 1 and not isinstance(tgt.elts[0], ast.Starred):
-                coll = d.value
-    if coll is None:
-        return False, f"`{unparse(v)[:60]}` is not the single element of a collection"
-    if not is_minus(coll):
-        return False, f"`{unparse(inl.expr(coll))[:80]}` is not the outgoing edges of `{origin}` minus `{state}`"
-    return True, None
+
+def _pos_args(v, params: tuple[str, ...] = ()) -> list:
+    """Arguments of a call value in declaration order ``params`` (keywords are moved to their position)."""
+    args = list(v[2])
+    kw = dict(v[3])
+    for p_ in params[len(args):]:
+        if p_ in kw:
+            args.append(kw.pop(p_))
+        else:
+            break
+    if kw:
+        raise Unreadable(f"unexpected keyword arguments {sorted(kw)} in a call of {_show(v[1])}")
+    if any(isinstance(a, tuple) and a and a[0] == "star" for a in args):
+        raise Unreadable(f"splatted arguments in a call of {_show(v[1])}")
+    return args
+
+
+def _show(v) -> str:
+    from ..symex import show
+
+    return show(v)[:90]
+
+
+def _same_elements(v):
+    """Look through conversions that keep the elements (list / tuple / sorted / set / frozenset / iter / reversed)."""
+    while isinstance(v, tuple) and v:
+        if v[0] == "call" and v[1][0] == "builtin" and v[1][1] in _KEEPS_ELEMENTS and len(v[2]) == 1 and not v[3]:
+            v = v[2][0]
+        elif v[0] == "seqop" and v[1] in {"sort", "reverse"}:
+            v = v[2]
+        else:
+            break
+    return v
+
+
+def _method_call(v, name: str):
+    """(receiver, positional args) if ``v`` is ``receiver.name(...)``, else None."""
+    if isinstance(v, tuple) and v and v[0] == "call" and v[1][0] == "attr" and v[1][2] == name and not v[3]:
+        return v[1][1], list(v[2])
+    return None
+
+
+def _edge_attr(v, state=None):
+    """(topology, state, attribute) if ``v`` is ``topology.edges[state].attribute``."""
+    if isinstance(v, tuple) and v and v[0] == "attr" and v[1][0] == "sub" and v[1][1][0] == "attr" and v[1][1][2] == "edges":
+        if state is None or v[1][2] == state:
+            return v[1][1][1], v[1][2], v[2]
+    return None
+
+
+def _none_test(t):
+    """(subject) if the atomic test is ``subject is None`` (SymEx keeps tests in positive normal form)."""
+    if isinstance(t, tuple) and t and t[0] == "cmp" and t[1] in {"is", "=="}:
+        if t[3] == ("const", None):
+            return t[2]
+        if t[2] == ("const", None):
+            return t[3]
+    return None
+
+
+def single_element(sx, v):
+    """C if ``v`` is THE element of the one-element collection C: ``next(iter(C))``, ``C[0]`` / ``tuple(C)[0]``,
+    ``(x,) = C``, ``C.pop()``, ``min(C)`` / ``max(C)``, ``[*C][0]``.  None otherwise."""
+    if not (isinstance(v, tuple) and v):
+        return None
+    if v[0] == "call" and v[1] == ("builtin", "next") and len(v[2]) == 1 and not v[3]:
+        return _same_elements(v[2][0])
+    if v[0] == "call" and v[1][0] == "builtin" and v[1][1] in {"min", "max"} and len(v[2]) == 1 and not v[3]:
+        return _same_elements(v[2][0])
+    if v[0] == "sub" and v[2] in {("const", 0), ("const", -1)}:
+        c = v[1]
+        if c[0] in {"list", "tuple"} and len(c[1]) == 1 and c[1][0][0] == "star":
+            c = c[1][0][1]
+        return _same_elements(c)
+    if v[0] == "item" and v[2] == 0 and sx.lengths.get(v[1]) == 1:
+        return _same_elements(v[1])
+    m = _method_call(v, "pop")
+    if m is not None and not m[1]:
+        return _same_elements(m[0])
+    return None
+
+
+def _edges_at(v, method: str, topo=None):
+    """node term if ``v`` (through element-keeping conversions) is ``topology.<method>(node)``."""
+    m = _method_call(_same_elements(v), method)
+    if m is not None and len(m[1]) == 1 and (topo is None or m[0] == topo):
+        return m[0], m[1][0]
+    return None
+
+
+def read_attached(tree: Tree) -> tuple[list[str], dict]:
+    """determine_attached_final_state(topology, state) as a decision table over `topology.edges[state].<node> is None`:
+    problems (understood, wrong) and the reading; raises Unreadable for anything else."""
+    from ..symex import decision_table, strip_when
+
+    fn = tree.func(ATTACHED)
+    if len(fn.params) < 2:
+        raise Unreadable(f"{fn.qual}: no (topology, state) parameters")
+    topo, state = ("param", fn.params[0]), ("param", fn.params[1])
+    sx, value = helper_value(tree, ATTACHED)
+    atoms, table = decision_table(value)
+    tests = []
+    for a in atoms:
+        subj = _none_test(a)
+        ea = _edge_attr(subj, state) if subj is not None else None
+        if ea is None or ea[0] != topo:
+            raise Unreadable(f"{fn.qual}: the result depends on `{_show(a)}`, which is not a test `topology.edges[state].<node id> is None`")
+        tests.append(ea[2])
+    if len(tests) != 1:
+        raise Unreadable(f"{fn.qual}: the result depends on {len(tests)} conditions (one expected: has the edge an ending node?)")
+
+    def kind(v):
+        if v is None:
+            return ("raises",)
+        if v[0] in {"list", "tuple"} and len(v[1]) == 1 and strip_when(v[1][0])[1] == state:
+            return ("self",)
+        inner = v
+        is_sorted = False
+        if inner[0] == "call" and inner[1] == ("builtin", "sorted") and len(inner[2]) == 1 and not inner[3]:
+            is_sorted, inner = True, inner[2][0]
+        e = _edges_at(inner, "get_originating_final_state_edge_ids", topo)
+        if e is not None:
+            ea = _edge_attr(e[1], state)
+            if ea is not None and ea[0] == topo:
+                return ("below", ea[2], is_sorted)
+        raise Unreadable(f"{fn.qual}: returns `{_show(v)}`, which is neither [state] nor the final-state edges below a node of the edge")
+
+    reading = {"test": f"edges[state].{tests[0]} is None", True: kind(table[(True,)]), False: kind(table[(False,)])}
+    problems = []
+    if tests[0] != "ending_node_id":
+        problems.append(f"the leaf case is decided by `{tests[0]}`, not by `ending_node_id`")
+    if reading[True] != ("self",):
+        problems.append(f"for an edge without {tests[0]} the result is {reading[True]}, not [state]")
+    if reading[False] != ("below", "ending_node_id", True):
+        problems.append(f"for an edge with {tests[0]} the result is {reading[False]}, not the sorted final-state ids below its ending node")
+    return problems, reading
+
+
+def read_opposite(tree: Tree) -> tuple[list[str], dict]:
+    from ..symex import alternatives
+
+    fn = tree.func(OPPOSITE)
+    topo, state = ("param", fn.params[0]), ("param", fn.params[1])
+    sx, value = helper_value(tree, OPPOSITE, frozenset({ATTACHED, SIBLING}))
+    alts = alternatives(value)
+    if len(alts) != 1:
+        raise Unreadable(f"{fn.qual}: the result depends on conditions (`{_show(value)}`); a single comparison is expected")
+    v = alts[0][1]
+    negated = False
+    while v[0] == "not":
+        v, negated = v[1], not negated
+    if v[0] != "cmp" or v[1] not in {">", "<", ">=", "<="}:
+        raise Unreadable(f"{fn.qual}: returns `{_show(v)}`, not an order comparison")
+    op, left, right = v[1], v[2], v[3]
+    if negated:  # not (a <= b)  ==  a > b   (a total order on tuples of ints)
+        op = {"<=": ">", ">=": "<", "<": ">=", ">": "<="}[op]
+    greater, smaller = (left, right) if op in {">", ">="} else (right, left)
+
+    def side(x):
+        x = _same_elements(x)
+        if not _is_call(x, ATTACHED):
+            raise Unreadable(f"{fn.qual}: compares `{_show(x)}`, which is not determine_attached_final_state(...)")
+        t, s_ = _pos_args(x, ("topology", "state_id"))[:2]
+        if t != topo:
+            raise Unreadable(f"{fn.qual}: attached final states of another topology `{_show(t)}`")
+        if s_ == state:
+            return "state"
+        if _is_call(s_, SIBLING) and _pos_args(s_, ("topology", "state_id"))[:2] == [topo, state]:
+            return "sibling"
+        raise Unreadable(f"{fn.qual}: attached final states of `{_show(s_)}`, which is neither the state nor its sibling")
+
+    reading = {"greater": side(greater), "smaller": side(smaller), "strict": op in {">", "<"}}
+    problems = []
+    if (reading["greater"], reading["smaller"]) != ("state", "sibling"):
+        problems.append(f"the order is attached({reading['greater']}) > attached({reading['smaller']}), not attached(state) > attached(sibling)")
+    if not reading["strict"]:
+        problems.append("the order is not strict: two siblings could both (or neither) be the opposite-helicity state")
+    return problems, reading
+
+
+def _outgoing_of_origin(fn, v, topo, state, method="get_edge_ids_outgoing_from_node", node_attr="originating_node_id") -> list[str]:
+    """Problems if the collection ``v`` is not ``topology.<method>(topology.edges[state].<node_attr>)``."""
+    for m in ("get_edge_ids_outgoing_from_node", "get_edge_ids_ingoing_to_node"):
+        e = _edges_at(v, m, topo)
+        if e is not None:
+            ea = _edge_attr(e[1], state)
+            if ea is None or ea[0] != topo:
+                raise Unreadable(f"{fn.qual}: edges at `{_show(e[1])}`, which is not a node of the state's edge")
+            out = []
+            if m != method:
+                out.append(f"reads {m}(), not {method}()")
+            if ea[2] != node_attr:
+                out.append(f"reads the edges at `{ea[2]}`, not at `{node_attr}`")
+            return out
+    raise Unreadable(f"{fn.qual}: `{_show(v)}` is not the set of edges entering / leaving a node of the topology")
+
+
+def read_sibling(tree: Tree) -> tuple[list[str], dict]:
+    """get_sibling_state_id = the one element of (edges leaving the originating node) minus the state."""
+    from ..symex import alternatives, strip_when
+
+    fn = tree.func(SIBLING)
+    if len(fn.params) < 2:
+        raise Unreadable(f"{fn.qual}: no (topology, state) parameters")
+    topo, state = ("param", fn.params[0]), ("param", fn.params[1])
+    sx, value = helper_value(tree, SIBLING)
+    problems: list[str] = []
+    alts = alternatives(value)
+    if not alts:
+        raise Unreadable(f"{fn.qual}: no value")
+    for _pc, v in alts:
+        coll = single_element(sx, v)
+        if coll is None:
+            raise Unreadable(f"{fn.qual}: returns `{_show(v)}`, which is not the single element of a collection")
+        minus = _minus_state(fn, coll, state)
+        if minus is None:
+            raise Unreadable(f"{fn.qual}: `{_show(coll)}` is not a collection with one element taken out")
+        base, removed, kept_pred = minus
+        problems += _outgoing_of_origin(fn, base, topo, state)
+        if removed != state:
+            problems.append(f"takes `{_show(removed)}` out of the outgoing edges, not the state itself")
+        if kept_pred is False:
+            problems.append("keeps the state itself instead of removing it")
+    return problems, {"alternatives": len(alts)}
+
+
+def _minus_state(fn, coll, state):
+    """(base collection, removed element, kept) if ``coll`` is `base` with one element removed:
+    in-place remove / discard, set difference, a comprehension / filter with `x != removed`.
+    ``kept`` is False when the filter keeps exactly the removed element instead (x == removed)."""
+    from ..symex import strip_when
+
+    c = _same_elements(coll)
+    if c[0] == "seqop" and c[1] in {"remove", "discard"} and len(c[3]) == 1:
+        return c[2], c[3][0], True
+    if c[0] == "binop" and c[1] == "-":
+        r = _same_elements(c[3])
+        if r[0] in {"set", "list", "tuple"} and len(r[1]) == 1:
+            return c[2], r[1][0], True
+    m = _method_call(c, "difference")
+    if m is not None and len(m[1]) == 1:
+        r = _same_elements(m[1][0])
+        if r[0] in {"set", "list", "tuple"} and len(r[1]) == 1:
+            return m[0], r[1][0], True
+    if c[0] in {"list", "set", "tuple"} and len(c[1]) == 1 and c[1][0][0] == "foreach":
+        each, item = c[1][0][1], c[1][0][2]
+        pcs, elt = strip_when(item)
+        if elt == each and len(pcs) == 1:
+            t, outcome = pcs[0]
+            if t[0] == "cmp" and t[1] == "==" and each in (t[2], t[3]):
+                other = t[3] if t[2] == each else t[2]
+                return each[1], other, (not outcome)
+    return None
+
+
+def read_parent(tree: Tree) -> tuple[list[str], dict]:
+    """get_parent_id = None iff the edge originates nowhere, else the single edge entering its originating node
+    (anything but exactly one entering edge is rejected)."""
+    from ..symex import decision_table
+
+    fn = tree.func(PARENT)
+    if len(fn.params) < 2:
+        raise Unreadable(f"{fn.qual}: no (topology, state) parameters")
+    topo, state = ("param", fn.params[0]), ("param", fn.params[1])
+    sx, value = helper_value(tree, PARENT)
+    atoms, table = decision_table(value)
+    origin_test = None
+    count_tests = []
+    for i, a in enumerate(atoms):
+        subj = _none_test(a)
+        ea = _edge_attr(subj, state) if subj is not None else None
+        if ea is not None and ea[0] == topo:
+            if origin_test is not None:
+                raise Unreadable(f"{fn.qual}: two `is None` tests on the edge")
+            origin_test = (i, ea[2])
+            continue
+        if a[0] == "cmp" and a[1] in {"==", "<", ">", "<=", ">="} and any(_is_call(x, "len") for x in (a[2], a[3])):
+            count_tests.append(i)
+            continue
+        if _edges_at(a, "get_edge_ids_ingoing_to_node", topo) is not None or _edges_at(a, "get_edge_ids_outgoing_from_node", topo) is not None:
+            count_tests.append(i)  # truth value of the collection: is there an edge at all?
+            continue
+        raise Unreadable(f"{fn.qual}: the result depends on `{_show(a)}`, which is neither `edge.<node> is None` nor a count of edges")
+    if origin_test is None:
+        raise Unreadable(f"{fn.qual}: no test whether the edge originates from a node")
+    problems: list[str] = []
+    if origin_test[1] != "originating_node_id":
+        problems.append(f"the top edge is recognised by `{origin_test[1]} is None`, not `originating_node_id is None`")
+    top_values = {v for bits, v in table.items() if bits[origin_test[0]] and v is not None}
+    if top_values != {("const", None)}:
+        problems.append(f"an edge that originates nowhere gives {[_show(v) for v in top_values] or 'an exception'}, not None")
+    rows = {bits: v for bits, v in table.items() if not bits[origin_test[0]]}
+    values = {v for v in rows.values() if v is not None}
+    if not values:
+        raise Unreadable(f"{fn.qual}: no value for an edge that originates from a node")
+    for v in values:
+        if isinstance(v, tuple) and v and v[0] == "ambiguous":
+            raise Unreadable(f"{fn.qual}: ambiguous value `{_show(v)}`")
+        coll = single_element(sx, v)
+        if coll is None:
+            if v == ("const", None):
+                problems.append("returns None although the edge originates from a node")
+                continue
+            raise Unreadable(f"{fn.qual}: returns `{_show(v)}`, which is not the single element of a collection")
+        problems += _outgoing_of_origin(fn, coll, topo, state, "get_edge_ids_ingoing_to_node", "originating_node_id")
+    guarded = bool(count_tests) and any(v is None for v in rows.values())
+    if not guarded:
+        problems.append("no rejection of a node with other than one entering edge (len(...) != 1 -> raise)")
+    return problems, {"origin": origin_test[1], "guarded": guarded}
+
+
+def _helper_verdict(ctx: Check, tree: Tree, qual: str, key: str, reader, what: str) -> None:
+    fn = tree.func(qual)
+    try:
+        problems, reading = reader(tree)
+    except Unreadable as exc:
+        raise AnalysisError(f"R-HELPERS {fn.qual}: cannot decide - {exc}") from exc
+    ctx.verdict(not problems, "R-HELPERS", f"{fn.qual}::{key}", tree.loc(fn.node), what, problems or None)
 
 
 def check_topology_helpers(ctx: Check, tree: Tree) -> None:
@@ -509,62 +1461,21 @@ def check_topology_helpers(ctx: Check, tree: Tree) -> None:
                                            (a strict order: exactly one of two siblings is opposite, state 0 never)
       determine_attached_final_state    =  [s] iff the edge ends nowhere, else the sorted final states below it
       get_sibling_state_id              =  the one other edge leaving the originating node
-      get_parent_id                     =  None iff the edge originates nowhere, else the one edge entering its originating node"""
-    mod = "ampform.helicity.decay"
-    # 1
-    fn = tree.func(f"{mod}::is_opposite_helicity_state")
-    rd = RD(fn.node)
-    rets = [r for r in walk_function(fn.node) if isinstance(r, ast.Return) and r.value is not None]
-    ok = False
-    detail = None
-    if len(rets) == 1 and isinstance(rets[0].value, ast.Compare) and len(rets[0].value.ops) == 1 and isinstance(rets[0].value.ops[0], (ast.Gt, ast.Lt)):
-        # `a > b` and `b < a` are the same strict order; sorted lists of ints compare like the tuples made of them
-        greater, smaller = rets[0].value.left, rets[0].value.comparators[0]
-        if isinstance(rets[0].value.ops[0], ast.Lt):
-            greater, smaller = smaller, greater
-
-        def side(n):
-            inner = n.args[0] if isinstance(n, ast.Call) and unparse(n.func) in {"tuple", "list"} and n.args else n
-            txt = " ".join([unparse(inner)] + [unparse(d.value) for d in rd.closure(rd.uses(inner)) if isinstance(d.value, ast.AST)])
-            if "determine_attached_final_state(" not in txt:
-                return None
-            return "sibling" if "get_sibling_state_id(" in txt else "state"
-        l_, r_ = side(greater), side(smaller)
-        ok = (l_, r_) == ("state", "sibling")
-        detail = (l_, r_)
-    ctx.verdict(ok, "R-HELPERS", f"{fn.qual}::strict-order", tree.loc(fn.node),
-                "is_opposite_helicity_state == attached final states of the state > those of its sibling (strict tuple order)", None if ok else detail)
-    # 2
-    fn = tree.func(f"{mod}::determine_attached_final_state")
-    rets = [r for r in walk_function(fn.node) if isinstance(r, ast.Return) and r.value is not None]
-    ok = False
-    if len(rets) == 2:
-        leaf = [r for r in rets if unparse(r.value).replace(" ", "") == f"[{fn.params[1]}]"]
-        if len(leaf) == 1:
-            g = [a for a in ancestors(leaf[0]) if isinstance(a, ast.If)]
-            ok = len(g) == 1 and unparse(g[0].test).replace(" ", "").endswith(".ending_node_idisNone") and any(leaf[0] is n for b in g[0].body for n in ast.walk(b))
-            other = [r for r in rets if r is not leaf[0]][0]
-            ok = ok and unparse(other.value).replace(" ", "").startswith("sorted(topology.get_originating_final_state_edge_ids(") and not [a for a in ancestors(other) if isinstance(a, ast.If)]
-    ctx.verdict(ok, "R-HELPERS", f"{fn.qual}::definition", tree.loc(fn.node), "determine_attached_final_state: [state] iff the edge has no ending node, else the sorted final-state ids below its ending node")
-    # 3
-    fn = tree.func(f"{mod}::get_sibling_state_id")
-    ok, detail = sibling_definition(fn)
-    ctx.verdict(ok, "R-HELPERS", f"{fn.qual}::definition", tree.loc(fn.node), "get_sibling_state_id: the outgoing edges of the originating node minus the state itself", detail)
-    # 4
-    fn = tree.func(f"{mod}::get_parent_id")
-    rets = [r for r in walk_function(fn.node) if isinstance(r, ast.Return)]
-    none_r = [r for r in rets if r.value is None or (isinstance(r.value, ast.Constant) and r.value.value is None)]
-    ok = False
-    if len(none_r) == 1:
-        g = [a for a in ancestors(none_r[0]) if isinstance(a, ast.If)]
-        ok = len(g) == 1 and unparse(g[0].test).replace(" ", "").endswith(".originating_node_idisNone")
-        val = [r for r in rets if r not in none_r]
-        rd = RD(fn.node)
-        ok = ok and len(val) == 1 and "get_edge_ids_ingoing_to_node(" in " ".join(unparse(d.value) for d in rd.closure(rd.uses(val[0].value)) if isinstance(d.value, ast.AST))
-        ok = ok and isinstance(val[0].value, ast.Subscript) and unparse(val[0].value.slice) == "0"
-        cnt = [n for n in walk_function(fn.node) if isinstance(n, ast.If) and any(isinstance(b, ast.Raise) for b in n.body)]
-        ok = ok and len(cnt) == 1 and unparse(cnt[0].test).replace(" ", "").startswith("len(") and unparse(cnt[0].test).replace(" ", "").endswith("!=1")
-    ctx.verdict(ok, "R-HELPERS", f"{fn.qual}::definition", tree.loc(fn.node), "get_parent_id: None iff the edge originates nowhere, else the single edge entering its originating node")
+      get_parent_id                     =  None iff the edge originates nowhere, else the one edge entering its originating node
+    Each helper is evaluated symbolically (sa/symex.py) and its VALUE is compared with the definition."""
+    errors = []
+    for qual, key, reader, what in (
+        (OPPOSITE, "strict-order", read_opposite, "is_opposite_helicity_state == attached final states of the state > those of its sibling (strict tuple order)"),
+        (ATTACHED, "definition", read_attached, "determine_attached_final_state: [state] iff the edge has no ending node, else the sorted final-state ids below its ending node"),
+        (SIBLING, "definition", read_sibling, "get_sibling_state_id: the outgoing edges of the originating node minus the state itself"),
+        (PARENT, "definition", read_parent, "get_parent_id: None iff the edge originates nowhere, else the single edge entering its originating node"),
+    ):
+        try:
+            _helper_verdict(ctx, tree, qual, key, reader, what)
+        except AnalysisError as exc:  # the other helpers are still judged
+            errors.append(str(exc))
+    if errors:
+        raise AnalysisError("; ".join(errors))
 
 
 def run(ctx: Check, tree: Tree) -> None:
